@@ -1450,13 +1450,24 @@ theorem dumps_optAutoType (a : Option AutoType) (stk : List String) (off : Nat) 
   | some x => exact dumps_autoType x stk off ords (h x rfl)
 
 /-- what the entry proof needs of the history part -/
-def HistRT (denv : DEnv) (u : Bytes → Option String) (penv : Env) (fd fp : Nat) (history : Option (List Entry)) : Prop :=
+def histDepth : Option (List Entry) → Nat
+  | none => 0
+  | some l => entryListDepth l
+
+theorem entryDepth_eq (uuid : Bytes) (fields : List (String × Value)) (autotype : Option AutoType) (tags : List String)
+    (times : Times) (cd : CustomData) (iconId : Option Nat) (ciu : Option Bytes) (fg bg : Option Color)
+    (ourl : Option String) (qc : Option Bool) (h : Option (List Entry)) :
+    entryDepth (.mk uuid fields autotype tags times cd iconId ciu fg bg ourl qc h) = 1 + histDepth h := by
+  cases h <;> rfl
+
+/-- `B`: a reader budget that is enough for the entries of the history -/
+def HistRT (denv : DEnv) (u : Bytes → Option String) (penv : Env) (fd B : Nat) (history : Option (List Entry)) : Prop :=
   ∀ (stk : List String) (off : Nat) (ords : Ords) (ok : Bool), ∃ evs off' ords' h',
     Dumps (dumpOptHistory denv u fd ok history) stk off ords ok evs stk off' ords' ∧
-    (∀ (acc : EntryAcc) (rest : List Ev) (r : EntryAcc × PSt), acc.history = none →
+    (∀ fp, B ≤ fp → ∀ (acc : EntryAcc) (rest : List Ev) (r : EntryAcc × PSt), acc.history = none →
         LoopOk "Entry" (entryDispatch penv fp) skipUnknown { acc with history := h' } ⟨rest, off'⟩ r →
         LoopOk "Entry" (entryDispatch penv fp) skipUnknown acc ⟨evs ++ rest, off⟩ r) ∧
-    HistEq history h'
+    HistEq history h' ∧ 2 * histDepth history ≤ evs.length
 
 /-- the events of an `<Entry>` element, given those of its `<History>` part -/
 def evEntryWith (ks : Nat → Nat → Bytes) (off : Nat) (uuid : Bytes) (lf : List (String × Value))
@@ -1469,25 +1480,25 @@ def evEntryWith (ks : Nat → Nat → Bytes) (off : Nat) (uuid : Bytes) (lf : Li
     (evOpt "OverrideURL" id ourl ++ (evOpt "QualityCheck" boolText qc ++ (evsH ++ ([.stop "Entry"] ++ [])))))))))))))))
 
 theorem entry_core (denv : DEnv) (u : Bytes → Option String) (penv : Env) (hks : ∀ o n, (penv.ks o n).length = n)
-    (henv : denv.ks = penv.ks) (fd fp : Nat)
+    (henv : denv.ks = penv.ks) (fd B : Nat)
     (uuid : Bytes) (fields : List (String × Value)) (autotype : Option AutoType) (times : Times) (cd : CustomData)
     (iconId : Option Nat) (ciu : Option Bytes) (ourl : Option String) (qc : Option Bool) (history : Option (List Entry))
     (hu : uuid.length = 16) (hf : FieldsOk fields) (ha : ∀ x, autotype = some x → AutoTypeOk x) (ht : TimesOk times)
     (hcd : CdOk cd) (hic : ∀ n, iconId = some n → n < 18446744073709551616) (hciu : ∀ b, ciu = some b → b.length = 16)
-    (hou : OptNonBlank ourl) (hH : HistRT denv u penv fd fp history)
+    (hou : OptNonBlank ourl) (hH : HistRT denv u penv fd B history)
     (stk : List String) (off : Nat) (ords : Ords) :
     ∃ evs off' ords' h',
       Dumps (dumpEntry denv u (fd + 1) (.mk uuid fields autotype [] times cd iconId ciu none none ourl qc history))
         stk off ords true evs stk off' ords' ∧
-      Reads (parseEntry penv (fp + 1)) evs off
+      (∀ fp, B ≤ fp → Reads (parseEntry penv (fp + 1)) evs off
         (.mk uuid (insertAll [] (ordered ords fields)) autotype []
           ⟨times.expires, times.usageCount, insertAll [] (ordered ords.tail.tail times.times)⟩
-          (insertAll [] (ordered ords.tail cd)) iconId ciu none none ourl qc h') off' ∧
-      HistEq history h' ∧ (∃ attrs tl, evs = .start "Entry" attrs :: tl) := by
-  obtain ⟨evsH, offH, ordsH, h', hHd, hHr, hHe⟩ := hH ("Entry" :: stk)
+          (insertAll [] (ordered ords.tail cd)) iconId ciu none none ourl qc h') off') ∧
+      HistEq history h' ∧ (∃ attrs tl, evs = .start "Entry" attrs :: tl) ∧ 2 * (1 + histDepth history) ≤ evs.length := by
+  obtain ⟨evsH, offH, ordsH, h', hHd, hHr, hHe, hHl⟩ := hH ("Entry" :: stk)
     (evCustomData denv.ks (evFields denv.ks off (ordered ords fields)).2 (ordered ords.tail cd)).2 ords.tail.tail.tail true
   refine ⟨evEntryWith denv.ks off uuid (ordered ords fields) (ordered ords.tail cd) autotype
-    (ordered ords.tail.tail times.times) times iconId ciu ourl qc evsH, offH, ordsH, h', ?dumps, ?reads, hHe, ⟨[], _, rfl⟩⟩
+    (ordered ords.tail.tail times.times) times iconId ciu ourl qc evsH, offH, ordsH, h', ?dumps, ?reads, hHe, ⟨[], _, rfl⟩, ?len⟩
   case dumps =>
     rw [dumpEntry_eq]
     unfold evEntryWith
@@ -1507,8 +1518,11 @@ theorem entry_core (denv : DEnv) (u : Bytes → Option String) (penv : Env) (hks
     refine Dumps.bind (Dumps.optTag "QualityCheck" boolText true qc _ _ _ (by decide) (fun v _ => xmlText_bool v)) ?_
     refine Dumps.bind hHd ?_
     exact Dumps.bind (Dumps.emit_stop "Entry" stk _ _) (Dumps.pure _ _ _ _)
+  case len =>
+    simp only [evEntryWith, el, List.length_append, List.length_cons, List.length_nil]
+    omega
   case reads =>
-    intro rest
+    intro fp hfp rest
     rw [parseEntry_eq]
     have key : LoopOk "Entry" (entryDispatch penv fp) skipUnknown
         ({ uuid := penv.freshUuid, times := timesNew penv.now } : EntryAcc)
@@ -1563,7 +1577,7 @@ theorem entry_core (denv : DEnv) (u : Bytes → Option String) (penv : Env) (hks
           rw [txt_bool]; exact reads_tagOpt_some .bool "QualityCheck" _ _ _ (parses_bool b)
         exact this.andThen _
       rw [← henv]
-      refine hHr _ _ _ rfl ?_
+      refine hHr fp hfp _ _ _ rfl ?_
       exact LoopOk.stop _ _ _ _ _ _
     have hx : evEntryWith denv.ks off uuid (ordered ords fields) (ordered ords.tail cd) autotype
           (ordered ords.tail.tail times.times) times iconId ciu ourl qc evsH
@@ -1607,28 +1621,32 @@ theorem entryListDepth_cons (e : Entry) (es : List Entry) :
     entryListDepth (e :: es) = max (entryDepth e) (entryListDepth es) := rfl
 
 /-- the statement proved for one entry -/
-def EntryRT (denv : DEnv) (u : Bytes → Option String) (penv : Env) (fd fp : Nat) (e : Entry) : Prop :=
+def EntryRT (denv : DEnv) (u : Bytes → Option String) (penv : Env) (fd B : Nat) (e : Entry) : Prop :=
   ∀ (stk : List String) (off : Nat) (ords : Ords), ∃ evs off' ords' e',
     Dumps (dumpEntry denv u fd e) stk off ords true evs stk off' ords' ∧
-    Reads (parseEntry penv fp) evs off e' off' ∧ EntryEq e e' ∧ (∃ attrs tl, evs = .start "Entry" attrs :: tl)
+    (∀ fp, B ≤ fp → Reads (parseEntry penv fp) evs off e' off') ∧ EntryEq e e' ∧
+    (∃ attrs tl, evs = .start "Entry" attrs :: tl) ∧ 2 * entryDepth e ≤ evs.length
 
-theorem histLoop_rt (denv : DEnv) (u : Bytes → Option String) (penv : Env) (fd fp : Nat) (l : List Entry)
-    (h : ∀ e ∈ l, EntryRT denv u penv fd fp e) :
+theorem histLoop_rt (denv : DEnv) (u : Bytes → Option String) (penv : Env) (fd B : Nat) (l : List Entry)
+    (h : ∀ e ∈ l, EntryRT denv u penv fd B e) :
     ∀ (stk : List String) (off : Nat) (ords : Ords) (ok : Bool), ∃ evs off' ords' l',
       Dumps (histLoop denv u fd l ok) stk off ords ok evs stk off' ords' ∧
-      (∀ (acc : List Entry) (rest : List Ev) (r : List Entry × PSt),
+      (∀ fp, B ≤ fp → ∀ (acc : List Entry) (rest : List Ev) (r : List Entry × PSt),
         LoopOk "History" (historyDispatch penv fp) skipUnknown (acc ++ l') ⟨rest, off'⟩ r →
         LoopOk "History" (historyDispatch penv fp) skipUnknown acc ⟨evs ++ rest, off⟩ r) ∧
-      EntriesEq l l' := by
+      EntriesEq l l' ∧ 2 * entryListDepth l ≤ evs.length := by
   induction l with
   | nil =>
     intro stk off ords ok
-    exact ⟨[], off, ords, [], Dumps.pure _ _ _ _, fun acc rest r hn => by simpa using hn, EntriesEq.nil⟩
+    exact ⟨[], off, ords, [], Dumps.pure _ _ _ _, fun fp _ acc rest r hn => by simpa using hn, EntriesEq.nil, Nat.le_refl _⟩
   | cons e l ih =>
     intro stk off ords ok
-    obtain ⟨evs1, off1, ords1, e', hd1, hr1, he1, hhd⟩ := h e List.mem_cons_self stk off ords
-    obtain ⟨evs2, off2, ords2, l', hd2, hr2, he2⟩ := ih (fun x hx => h x (List.mem_cons_of_mem _ hx)) stk off1 ords1 ok
-    refine ⟨evs1 ++ evs2, off2, ords2, e' :: l', ?_, ?_, EntriesEq.cons _ _ _ _ he1 he2⟩
+    obtain ⟨evs1, off1, ords1, e', hd1, hr1, he1, hhd, hl1⟩ := h e List.mem_cons_self stk off ords
+    obtain ⟨evs2, off2, ords2, l', hd2, hr2, he2, hl2⟩ := ih (fun x hx => h x (List.mem_cons_of_mem _ hx)) stk off1 ords1 ok
+    refine ⟨evs1 ++ evs2, off2, ords2, e' :: l', ?_, ?_, EntriesEq.cons _ _ _ _ he1 he2, ?_⟩
+    case refine_3 =>
+      rw [entryListDepth_cons, List.length_append]
+      omega
     · unfold histLoop
       rw [List.forIn_cons]
       have e1 : evs1 ++ evs2 = (evs1 ++ []) ++ evs2 := by simp
@@ -1636,29 +1654,30 @@ theorem histLoop_rt (denv : DEnv) (u : Bytes → Option String) (penv : Env) (fd
       refine Dumps.bind (s2 := stk) (o2 := off1) (q2 := ords1) (a := ForInStep.yield (true && ok)) ?_ ?_
       · exact Dumps.bind hd1 (Dumps.pure _ _ _ _)
       · rw [Bool.true_and]; exact hd2
-    · intro acc rest r hn
+    · intro fp hfp acc rest r hn
       rw [List.append_assoc]
-      refine LoopOk.childL (acc ++ [e']) "Entry" evs1 _ off off1 _ hhd (by simp [historyDispatch]; rfl) (hr1.andThen _) ?_
-      refine hr2 _ rest r ?_
+      refine LoopOk.childL (acc ++ [e']) "Entry" evs1 _ off off1 _ hhd (by simp [historyDispatch]; rfl) ((hr1 fp hfp).andThen _) ?_
+      refine hr2 fp hfp _ rest r ?_
       simpa [List.append_assoc] using hn
 
 
-theorem histRT_none (denv : DEnv) (u : Bytes → Option String) (penv : Env) (fd fp : Nat) :
-    HistRT denv u penv fd fp none := by
+theorem histRT_none (denv : DEnv) (u : Bytes → Option String) (penv : Env) (fd B : Nat) :
+    HistRT denv u penv fd B none := by
   intro stk off ords ok
-  refine ⟨[], off, ords, none, Dumps.pure _ _ _ _, ?_, HistEq.none⟩
-  intro acc rest r hacc hn
+  refine ⟨[], off, ords, none, Dumps.pure _ _ _ _, ?_, HistEq.none, Nat.le_refl _⟩
+  intro fp _ acc rest r hacc hn
   have : ({ acc with history := none } : EntryAcc) = acc := by
     cases acc; simp at hacc; simp [hacc]
   rw [this] at hn
   exact hn
 
-theorem histRT_some (denv : DEnv) (u : Bytes → Option String) (penv : Env) (fd fp : Nat) (l : List Entry)
-    (h : ∀ e ∈ l, EntryRT denv u penv fd fp e) :
-    HistRT denv u penv fd (fp + 1) (some l) := by
+theorem histRT_some (denv : DEnv) (u : Bytes → Option String) (penv : Env) (fd B : Nat) (l : List Entry)
+    (h : ∀ e ∈ l, EntryRT denv u penv fd B e) :
+    HistRT denv u penv fd (B + 1) (some l) := by
   intro stk off ords ok
-  obtain ⟨evs, off', ords', l', hd, hr, he⟩ := histLoop_rt denv u penv fd fp l h ("History" :: stk) off ords ok
-  refine ⟨[.start "History" []] ++ (evs ++ ([.stop "History"] ++ [])), off', ords', some l', ?_, ?_, HistEq.some _ _ he⟩
+  obtain ⟨evs, off', ords', l', hd, hr, he, hl⟩ := histLoop_rt denv u penv fd B l h ("History" :: stk) off ords ok
+  refine ⟨[.start "History" []] ++ (evs ++ ([.stop "History"] ++ [])), off', ords', some l', ?_, ?_, HistEq.some _ _ he,
+    by simp only [histDepth, List.length_append, List.length_cons, List.length_nil]; omega⟩
   · show Dumps (do
         emit (WEv.start "History" [])
         let ok' ← histLoop denv u fd l ok
@@ -1667,14 +1686,16 @@ theorem histRT_some (denv : DEnv) (u : Bytes → Option String) (penv : Env) (fd
     refine Dumps.bind (Dumps.emit_start "History" [] stk off ords (by decide) rfl) ?_
     refine Dumps.bind hd ?_
     exact Dumps.bind (Dumps.emit_stop "History" stk _ _) (Dumps.pure _ _ _ _)
-  · intro acc rest r hacc hn
+  · intro fp1 hfp1 acc rest r hacc hn
+    obtain ⟨fp, rfl⟩ : ∃ k, fp1 = k + 1 := ⟨fp1 - 1, by omega⟩
+    have hfp : B ≤ fp := by omega
     have hrd : Reads (parseHistory penv (fp + 1)) ([.start "History" []] ++ (evs ++ ([.stop "History"] ++ []))) off l' off' := by
       intro rest'
       rw [parseHistory_eq]
       simp only [List.cons_append, List.nil_append, List.append_nil, List.append_assoc, bind, StateT.bind, expectStart, next,
         Outcome.bind, ite_true, pure, StateT.pure, fuelOf, get, getThe, MonadStateOf.get, StateT.get]
       refine (?_ : LoopOk _ _ _ _ _ _) _ (by simp)
-      refine hr [] _ _ ?_
+      refine hr fp hfp [] _ _ ?_
       exact LoopOk.stop _ _ _ _ _ _
     refine LoopOk.childL { acc with history := some l' } "History" _ rest off off' _ ⟨[], _, rfl⟩
       (entryDispatch_History penv (fp + 1) acc) (hrd.andThen _) hn
@@ -1703,40 +1724,1477 @@ theorem entryListDepth_mem (l : List Entry) : ∀ e ∈ l, entryDepth e ≤ entr
 /-- every entry of the domain, written with enough fuel, is read back as an equivalent entry -/
 theorem entry_rt (denv : DEnv) (u : Bytes → Option String) (penv : Env) (hks : ∀ o n, (penv.ks o n).length = n)
     (henv : denv.ks = penv.ks) :
-    ∀ (n : Nat) (e : Entry), entryDepth e ≤ n → EntryOk e → ∀ fd fp, n ≤ fd → 2 * n ≤ fp → EntryRT denv u penv fd fp e := by
+    ∀ (n : Nat) (e : Entry), entryDepth e ≤ n → EntryOk e → ∀ fd, n ≤ fd → EntryRT denv u penv fd (2 * n) e := by
   intro n
   induction n with
   | zero =>
     intro e hd
     have := entryDepth_pos e; omega
   | succ n ih =>
-    intro e hd hok fd fp hfd hfp
+    intro e hd hok fd hfd
     cases hok with
     | mk uuid fields autotype times cd iconId ciu ourl qc history hu hf hfn ha ht htn hcd hcdn hic hciu hou hh =>
       obtain ⟨fd', rfl⟩ : ∃ k, fd = k + 1 := ⟨fd - 1, by omega⟩
-      obtain ⟨fp', rfl⟩ : ∃ k, fp = k + 1 := ⟨fp - 1, by omega⟩
-      have hH : HistRT denv u penv fd' fp' history := by
+      have hH : HistRT denv u penv fd' (2 * n + 1) history := by
         cases history with
-        | none => exact histRT_none denv u penv fd' fp'
+        | none => exact histRT_none denv u penv fd' _
         | some l =>
-          obtain ⟨fp'', rfl⟩ : ∃ k, fp' = k + 1 := ⟨fp' - 1, by omega⟩
-          refine histRT_some denv u penv fd' fp'' l ?_
+          refine histRT_some denv u penv fd' (2 * n) l ?_
           intro x hx
           have hdx : entryDepth x ≤ n := by
             have := entryListDepth_mem l x hx
             rw [entryDepth_some] at hd
             omega
           cases hh with
-          | some _ hl => exact ih x hdx (entriesOk_mem l hl x hx) fd' fp'' (by omega) (by omega)
+          | some _ hl => exact ih x hdx (entriesOk_mem l hl x hx) fd' (by omega)
       intro stk off ords
-      obtain ⟨evs, off', ords', h', hdmp, hrd, hhe, hst⟩ := entry_core denv u penv hks henv fd' fp' uuid fields autotype times cd
-        iconId ciu ourl qc history hu hf ha ht hcd hic hciu hou hH stk off ords
-      refine ⟨evs, off', ords', _, hdmp, hrd, ?_, ?_⟩
+      obtain ⟨evs, off', ords', h', hdmp, hrd, hhe, hst, hlen⟩ := entry_core denv u penv hks henv fd' (2 * n + 1) uuid fields
+        autotype times cd iconId ciu ourl qc history hu hf ha ht hcd hic hciu hou hH stk off ords
+      refine ⟨evs, off', ords', (.mk uuid (insertAll [] (ordered ords fields)) autotype []
+          ⟨times.expires, times.usageCount, insertAll [] (ordered ords.tail.tail times.times)⟩
+          (insertAll [] (ordered ords.tail cd)) iconId ciu none none ourl qc h'), hdmp, ?_, ?_, hst, ?_⟩
+      · intro fp hfp
+        obtain ⟨fp', rfl⟩ : ∃ k, fp = k + 1 := ⟨fp - 1, by omega⟩
+        exact hrd fp' (by omega)
       · exact EntryEq.mk uuid fields _ autotype [] times _ cd _ iconId ciu none none ourl qc history h'
           (lookup_insertAll_ordered ords fields hfn)
           ⟨rfl, rfl, lookup_insertAll_ordered _ times.times htn⟩
           (lookup_insertAll_ordered _ cd hcdn) hhe
-      · exact hst
+      · rw [entryDepth_eq]; exact hlen
+
+/-! ### groups -/
+
+def childLoop (env : DEnv) (u : Bytes → Option String) (fuel : Nat) (cs : List Node) (ok : Bool) : D Bool :=
+  forIn cs ok fun c __s =>
+    have ok := __s
+    do
+    let __do_lift ← dumpGroup env u fuel c
+    have ok : Bool := __do_lift && ok
+    pure (ForInStep.yield ok)
+
+theorem dumpGroup_eq (env : DEnv) (u : Bytes → Option String) (fuel : Nat) (uuid : Bytes) (name : String) (notes : Option String)
+    (iconId : Option Nat) (ciu : Option Bytes) (children : List Node) (times : Times) (cd : CustomData) (isExp : Bool)
+    (das ea es : Option String) (ltve : Option Bytes) :
+    dumpGroup env u (fuel + 1) (.group uuid name notes iconId ciu children times cd isExp das ea es ltve) = (do
+      emit (.start "Group" [])
+      tagText "Name" name
+      tagRaw "UUID" (b64Text uuid)
+      optTag "Notes" id false notes
+      optTag "IconID" (fun (n : Nat) => toString n) true iconId
+      optTag "CustomIconUUID" b64Text true ciu
+      dumpTimes times
+      let ok0 ← dumpCustomData env u cd
+      tagRaw "IsExpanded" (boolText isExp)
+      optTag "DefaultAutoTypeSequence" id false das
+      optTag "EnableAutoType" id false ea
+      optTag "EnableSearching" id false es
+      optTag "LastTopVisibleEntry" b64Text true ltve
+      let ok ← childLoop env u fuel children ok0
+      emit .stop
+      pure ok) := rfl
+
+theorem dumpGroup_entry (env : DEnv) (u : Bytes → Option String) (fuel : Nat) (e : Entry) :
+    dumpGroup env u (fuel + 1) (.entry e) = dumpEntry env u (entryDepth e + 1) e := rfl
+
+def groupDispatch (env : Env) (fuel : Nat) : String → GroupAcc → Option (P GroupAcc) := fun name acc =>
+      if name = "UUID" then some (do pure { acc with uuid := (← tagReq .uuid).toUuid })
+      else if name = "Name" then some (do pure { acc with name := ((← tagOpt .text).map Scalar.str).getD "" })
+      else if name = "Notes" then some (do pure { acc with notes := (← tagOpt .text).map Scalar.str })
+      else if name = "IconID" then some (do pure { acc with iconId := (← tagOpt .usize).map Scalar.toNat })
+      else if name = "CustomIconUUID" then some (do pure { acc with customIconUuid := (← tagOpt .uuid).map Scalar.toUuid })
+      else if name = "Times" then some (do pure { acc with times := (← parseTimes) })
+      else if name = "IsExpanded" then some (do pure { acc with isExpanded := (← tagReq .bool).toBool })
+      else if name = "DefaultAutoTypeSequence" then some (do pure { acc with defaultAutotypeSequence := (← tagOpt .text).map Scalar.str })
+      else if name = "EnableAutoType" then some (do pure { acc with enableAutotype := (← tagOpt .text).map Scalar.str })
+      else if name = "EnableSearching" then some (do pure { acc with enableSearching := (← tagOpt .text).map Scalar.str })
+      else if name = "LastTopVisibleEntry" then some (do pure { acc with lastTopVisibleEntry := (← tagOpt .uuid).map Scalar.toUuid })
+      else if name = "Entry" then some (do
+        let n := (← get).evs.length
+        pure { acc with children := acc.children ++ [.entry (← parseEntry env (n + 1))] })
+      else if name = "Group" then some (do pure { acc with children := acc.children ++ [← parseGroup env fuel] })
+      else if name = "CustomData" then some (do pure { acc with customData := (← parseCustomData env) })
+      else none
+
+theorem parseGroup_eq (env : Env) (fuel : Nat) : parseGroup env (fuel + 1) = (do
+    let _ ← expectStart "Group"
+    let acc ← structLoop "Group" (groupDispatch env fuel) skipUnknown (← fuelOf) {}
+    pure acc.toNode) := by
+  rw [parseGroup]; rfl
+
+
+theorem groupDispatch_UUID (env : Env) (fuel : Nat) (acc : GroupAcc) :
+    groupDispatch env fuel "UUID" acc = some (do pure { acc with uuid := (← tagReq .uuid).toUuid }) := by
+  simp [groupDispatch]
+theorem groupDispatch_Name (env : Env) (fuel : Nat) (acc : GroupAcc) :
+    groupDispatch env fuel "Name" acc = some (do pure { acc with name := ((← tagOpt .text).map Scalar.str).getD "" }) := by
+  simp [groupDispatch]
+theorem groupDispatch_Notes (env : Env) (fuel : Nat) (acc : GroupAcc) :
+    groupDispatch env fuel "Notes" acc = some (do pure { acc with notes := (← tagOpt .text).map Scalar.str }) := by
+  simp [groupDispatch]
+theorem groupDispatch_IconID (env : Env) (fuel : Nat) (acc : GroupAcc) :
+    groupDispatch env fuel "IconID" acc = some (do pure { acc with iconId := (← tagOpt .usize).map Scalar.toNat }) := by
+  simp [groupDispatch]
+theorem groupDispatch_CustomIconUUID (env : Env) (fuel : Nat) (acc : GroupAcc) :
+    groupDispatch env fuel "CustomIconUUID" acc
+      = some (do pure { acc with customIconUuid := (← tagOpt .uuid).map Scalar.toUuid }) := by
+  simp [groupDispatch]
+theorem groupDispatch_Times (env : Env) (fuel : Nat) (acc : GroupAcc) :
+    groupDispatch env fuel "Times" acc = some (do pure { acc with times := (← parseTimes) }) := by
+  simp [groupDispatch]
+theorem groupDispatch_IsExpanded (env : Env) (fuel : Nat) (acc : GroupAcc) :
+    groupDispatch env fuel "IsExpanded" acc = some (do pure { acc with isExpanded := (← tagReq .bool).toBool }) := by
+  simp [groupDispatch]
+theorem groupDispatch_DAS (env : Env) (fuel : Nat) (acc : GroupAcc) :
+    groupDispatch env fuel "DefaultAutoTypeSequence" acc
+      = some (do pure { acc with defaultAutotypeSequence := (← tagOpt .text).map Scalar.str }) := by
+  simp [groupDispatch]
+theorem groupDispatch_EA (env : Env) (fuel : Nat) (acc : GroupAcc) :
+    groupDispatch env fuel "EnableAutoType" acc
+      = some (do pure { acc with enableAutotype := (← tagOpt .text).map Scalar.str }) := by
+  simp [groupDispatch]
+theorem groupDispatch_ES (env : Env) (fuel : Nat) (acc : GroupAcc) :
+    groupDispatch env fuel "EnableSearching" acc
+      = some (do pure { acc with enableSearching := (← tagOpt .text).map Scalar.str }) := by
+  simp [groupDispatch]
+theorem groupDispatch_LTVE (env : Env) (fuel : Nat) (acc : GroupAcc) :
+    groupDispatch env fuel "LastTopVisibleEntry" acc
+      = some (do pure { acc with lastTopVisibleEntry := (← tagOpt .uuid).map Scalar.toUuid }) := by
+  simp [groupDispatch]
+theorem groupDispatch_Entry (env : Env) (fuel : Nat) (acc : GroupAcc) :
+    groupDispatch env fuel "Entry" acc = some (do
+        let n := (← get).evs.length
+        pure { acc with children := acc.children ++ [.entry (← parseEntry env (n + 1))] }) := by
+  simp [groupDispatch]
+theorem groupDispatch_Group (env : Env) (fuel : Nat) (acc : GroupAcc) :
+    groupDispatch env fuel "Group" acc = some (do pure { acc with children := acc.children ++ [← parseGroup env fuel] }) := by
+  simp [groupDispatch]
+theorem groupDispatch_CustomData (env : Env) (fuel : Nat) (acc : GroupAcc) :
+    groupDispatch env fuel "CustomData" acc = some (do pure { acc with customData := (← parseCustomData env) }) := by
+  simp [groupDispatch]
+
+mutual
+  inductive NodeEq : Node → Node → Prop where
+    | entry (e e' : Entry) (h : EntryEq e e') : NodeEq (.entry e) (.entry e')
+    | group (uuid : Bytes) (name : String) (notes : Option String) (iconId : Option Nat) (ciu : Option Bytes)
+        (cs cs' : List Node) (t t' : Times) (cd cd' : CustomData) (isExp : Bool) (das ea es : Option String)
+        (ltve : Option Bytes)
+        (ht : t'.expires = t.expires ∧ t'.usageCount = t.usageCount ∧ ∀ k, t'.times.lookup k = t.times.lookup k)
+        (hcd : ∀ k, cd'.lookup k = cd.lookup k) (hc : NodesEq cs cs') :
+        NodeEq (.group uuid name notes iconId ciu cs t cd isExp das ea es ltve)
+          (.group uuid name notes iconId ciu cs' t' cd' isExp das ea es ltve)
+  inductive NodesEq : List Node → List Node → Prop where
+    | nil : NodesEq [] []
+    | cons (n n' : Node) (l l' : List Node) (hn : NodeEq n n') (hl : NodesEq l l') : NodesEq (n :: l) (n' :: l')
+end
+
+mutual
+  /-- the groups C03 speaks about -/
+  inductive NodeOk : Node → Prop where
+    | entry (e : Entry) (h : EntryOk e) : NodeOk (.entry e)
+    | group (uuid : Bytes) (name : String) (notes : Option String) (iconId : Option Nat) (ciu : Option Bytes)
+        (cs : List Node) (t : Times) (cd : CustomData) (isExp : Bool) (das ea es : Option String) (ltve : Option Bytes)
+        (hu : uuid.length = 16) (hname : TextOk name) (hnotes : OptNonBlank notes)
+        (hic : ∀ n, iconId = some n → n < 18446744073709551616) (hciu : ∀ b, ciu = some b → b.length = 16)
+        (ht : TimesOk t) (htn : KeysNodup t.times) (hcd : CdOk cd) (hcdn : KeysNodup cd)
+        (hdas : OptNonBlank das) (hea : OptNonBlank ea) (hes : OptNonBlank es)
+        (hltve : ∀ b, ltve = some b → b.length = 16) (hc : NodesOk cs) :
+        NodeOk (.group uuid name notes iconId ciu cs t cd isExp das ea es ltve)
+  inductive NodesOk : List Node → Prop where
+    | nil : NodesOk []
+    | cons (n : Node) (l : List Node) (hn : NodeOk n) (hl : NodesOk l) : NodesOk (n :: l)
+end
+
+/-- what the group proof needs of the children -/
+def ChildrenRT (denv : DEnv) (u : Bytes → Option String) (penv : Env) (fd B : Nat) (cs : List Node) : Prop :=
+  ∀ (stk : List String) (off : Nat) (ords : Ords) (ok : Bool), ∃ evs off' ords' cs',
+    Dumps (childLoop denv u fd cs ok) stk off ords ok evs stk off' ords' ∧
+    (∀ fp, B ≤ fp → ∀ (acc : GroupAcc) (rest : List Ev) (r : GroupAcc × PSt),
+        LoopOk "Group" (groupDispatch penv fp) skipUnknown { acc with children := acc.children ++ cs' } ⟨rest, off'⟩ r →
+        LoopOk "Group" (groupDispatch penv fp) skipUnknown acc ⟨evs ++ rest, off⟩ r) ∧
+    NodesEq cs cs' ∧ nodeListDepth cs ≤ evs.length
+
+/-- the events of a `<Group>` element, given those of its children -/
+def evGroupWith (ks : Nat → Nat → Bytes) (off : Nat) (uuid : Bytes) (name : String) (notes : Option String)
+    (iconId : Option Nat) (ciu : Option Bytes) (lt : List (String × Int)) (times : Times)
+    (lcd : List (String × CustomDataItem)) (isExp : Bool) (das ea es : Option String) (ltve : Option Bytes)
+    (evsC : List Ev) : List Ev :=
+  [.start "Group" []] ++ (el "Name" (txt name) ++ (el "UUID" (txt (b64Text uuid)) ++ (evOpt "Notes" id notes ++
+    (evOpt "IconID" (fun (n : Nat) => toString n) iconId ++ (evOpt "CustomIconUUID" b64Text ciu ++ (evTimes lt times ++
+    ((evCustomData ks off lcd).1 ++ (el "IsExpanded" (txt (boolText isExp)) ++ (evOpt "DefaultAutoTypeSequence" id das ++
+    (evOpt "EnableAutoType" id ea ++ (evOpt "EnableSearching" id es ++ (evOpt "LastTopVisibleEntry" b64Text ltve ++
+    (evsC ++ ([.stop "Group"] ++ []))))))))))))))
+
+
+theorem group_core (denv : DEnv) (u : Bytes → Option String) (penv : Env) (hks : ∀ o n, (penv.ks o n).length = n)
+    (henv : denv.ks = penv.ks) (fd B : Nat)
+    (uuid : Bytes) (name : String) (notes : Option String) (iconId : Option Nat) (ciu : Option Bytes) (cs : List Node)
+    (times : Times) (cd : CustomData) (isExp : Bool) (das ea es : Option String) (ltve : Option Bytes)
+    (hu : uuid.length = 16) (hname : TextOk name) (hnotes : OptNonBlank notes)
+    (hic : ∀ n, iconId = some n → n < 18446744073709551616) (hciu : ∀ b, ciu = some b → b.length = 16)
+    (ht : TimesOk times) (hcd : CdOk cd) (hdas : OptNonBlank das) (hea : OptNonBlank ea) (hes : OptNonBlank es)
+    (hltve : ∀ b, ltve = some b → b.length = 16) (hC : ChildrenRT denv u penv fd B cs)
+    (stk : List String) (off : Nat) (ords : Ords) :
+    ∃ evs off' ords' cs',
+      Dumps (dumpGroup denv u (fd + 1) (.group uuid name notes iconId ciu cs times cd isExp das ea es ltve))
+        stk off ords true evs stk off' ords' ∧
+      (∀ fp, B ≤ fp → Reads (parseGroup penv (fp + 1)) evs off
+        (.group uuid name notes iconId ciu cs'
+          ⟨times.expires, times.usageCount, insertAll [] (ordered ords times.times)⟩
+          (insertAll [] (ordered ords.tail cd)) isExp das ea es ltve) off') ∧
+      NodesEq cs cs' ∧ (∃ attrs tl, evs = .start "Group" attrs :: tl) ∧ 1 + nodeListDepth cs ≤ evs.length := by
+  obtain ⟨evsC, offC, ordsC, cs', hCd, hCr, hCe, hCl⟩ := hC ("Group" :: stk)
+    (evCustomData denv.ks off (ordered ords.tail cd)).2 ords.tail.tail true
+  refine ⟨evGroupWith denv.ks off uuid name notes iconId ciu (ordered ords times.times) times (ordered ords.tail cd) isExp
+    das ea es ltve evsC, offC, ordsC, cs', ?dumps, ?reads, hCe, ⟨[], _, rfl⟩, ?len⟩
+  case len =>
+    simp only [evGroupWith, el, List.length_append, List.length_cons, List.length_nil]
+    omega
+  case dumps =>
+    rw [dumpGroup_eq]
+    unfold evGroupWith
+    refine Dumps.bind (Dumps.emit_start "Group" [] stk off ords (by decide) rfl) ?_
+    refine Dumps.bind (Dumps.tagText "Name" name _ off ords (by decide) hname.1) ?_
+    refine Dumps.bind (Dumps.tagRaw "UUID" (b64Text uuid) _ off ords (by decide) (xmlText_b64 _)) ?_
+    refine Dumps.bind (Dumps.optTag "Notes" id false notes _ _ _ (by decide) (fun v hv => (hnotes v hv).1)) ?_
+    refine Dumps.bind (Dumps.optTag "IconID" (fun (n : Nat) => toString n) true iconId _ _ _ (by decide) (fun v _ => xmlText_nat v)) ?_
+    refine Dumps.bind (Dumps.optTag "CustomIconUUID" b64Text true ciu _ _ _ (by decide) (fun v _ => xmlText_b64 v)) ?_
+    refine Dumps.bind (dumps_times times _ _ _ (fun p hp => (ht.2 p (mem_ordered _ _ p hp)).1)) ?_
+    refine Dumps.bind (dumps_customData denv u cd _ _ _ (fun p hp => hcd p (mem_ordered _ _ p hp))) ?_
+    refine Dumps.bind (Dumps.tagRaw "IsExpanded" (boolText isExp) _ _ _ (by decide) (xmlText_bool _)) ?_
+    refine Dumps.bind (Dumps.optTag "DefaultAutoTypeSequence" id false das _ _ _ (by decide) (fun v hv => (hdas v hv).1)) ?_
+    refine Dumps.bind (Dumps.optTag "EnableAutoType" id false ea _ _ _ (by decide) (fun v hv => (hea v hv).1)) ?_
+    refine Dumps.bind (Dumps.optTag "EnableSearching" id false es _ _ _ (by decide) (fun v hv => (hes v hv).1)) ?_
+    refine Dumps.bind (Dumps.optTag "LastTopVisibleEntry" b64Text true ltve _ _ _ (by decide) (fun v _ => xmlText_b64 v)) ?_
+    refine Dumps.bind hCd ?_
+    exact Dumps.bind (Dumps.emit_stop "Group" stk _ _) (Dumps.pure _ _ _ _)
+  case reads =>
+    intro fp hfp rest
+    rw [parseGroup_eq]
+    have key : LoopOk "Group" (groupDispatch penv fp) skipUnknown ({} : GroupAcc)
+        ⟨(evGroupWith denv.ks off uuid name notes iconId ciu (ordered ords times.times) times (ordered ords.tail cd) isExp
+          das ea es ltve evsC).tail ++ rest, off⟩
+        (({ uuid := uuid, name := name, notes := notes, iconId := iconId, customIconUuid := ciu, children := cs',
+            times := ⟨times.expires, times.usageCount, insertAll [] (ordered ords times.times)⟩,
+            customData := insertAll [] (ordered ords.tail cd), isExpanded := isExp, defaultAutotypeSequence := das,
+            enableAutotype := ea, enableSearching := es, lastTopVisibleEntry := ltve } : GroupAcc), ⟨rest, offC⟩) := by
+      have hne : uuid ≠ [] := by intro e; rw [e] at hu; simp at hu
+      simp only [evGroupWith, List.cons_append, List.nil_append, List.tail_cons, List.append_assoc, txt_b64 _ hne, txt_bool,
+        henv]
+      refine LoopOk.childL (acc' := ({ name := name } : GroupAcc)) "Name" _ _ off off _ ⟨[], _, rfl⟩
+        (groupDispatch_Name penv fp _) ?_ ?_
+      · rw [txt_textOk hname]
+        by_cases hn0 : name = ""
+        · subst hn0
+          exact (reads_tagOpt_none .text "Name" off).andThen _
+        · simp only [hn0, if_false]
+          exact (reads_tagOpt_some .text "Name" name _ off (parses_text name)).andThen _
+      refine LoopOk.child (acc' := ({ name := name, uuid := uuid } : GroupAcc)) "UUID" [] [.chars (b64Text uuid), .stop "UUID"] _ off off _ (by rfl)
+        (groupDispatch_UUID penv fp _) ((reads_tagReq .uuid "UUID" _ _ off (parses_uuid uuid hu)).andThen _) ?_
+      refine LoopOk.optChild notes _ (fun (acc : GroupAcc) x => { acc with notes := x }) "Notes" _ _ _ rfl
+        (fun a => ⟨[], _, rfl⟩) (groupDispatch_Notes penv fp _) ?_ ?_
+      · exact fun a hx => (reads_tagOpt_text "Notes" a _ (hnotes a hx)).andThen _
+      refine LoopOk.optChild iconId _ (fun (acc : GroupAcc) x => { acc with iconId := x }) "IconID" _ _ _ rfl
+        (fun a => ⟨[], _, rfl⟩) (groupDispatch_IconID penv fp _) ?_ ?_
+      · intro n hn
+        have : Reads (tagOpt .usize) (el "IconID" (txt (toString n))) off (some (.nat n)) off := by
+          rw [txt_nat]; exact reads_tagOpt_some .usize "IconID" _ _ _ (parses_usize n (hic n hn))
+        exact this.andThen _
+      refine LoopOk.optChild ciu _ (fun (acc : GroupAcc) x => { acc with customIconUuid := x }) "CustomIconUUID" _ _ _ rfl
+        (fun a => ⟨[], _, rfl⟩) (groupDispatch_CustomIconUUID penv fp _) ?_ ?_
+      · intro b hb
+        have hne' : b ≠ [] := by intro e; have := hciu b hb; rw [e] at this; simp at this
+        have : Reads (tagOpt .uuid) (el "CustomIconUUID" (txt (b64Text b))) off (some (.uuid b)) off := by
+          rw [txt_b64 _ hne']; exact reads_tagOpt_some .uuid "CustomIconUUID" _ _ _ (parses_uuid b (hciu b hb))
+        exact this.andThen _
+      refine LoopOk.childL (acc' := ({ name := name, uuid := uuid, notes := notes, iconId := iconId, customIconUuid := ciu, times := ⟨times.expires, times.usageCount, insertAll [] (ordered ords times.times)⟩ } : GroupAcc)) "Times" _ _ _ _ _ ⟨[], _, rfl⟩
+        (groupDispatch_Times penv fp _)
+        ((reads_times (ordered ords times.times) times _ (fun p hp => (ht.2 p (mem_ordered _ _ p hp)).2) ht.1).andThen _) ?_
+      refine LoopOk.childL (acc' := ({ name := name, uuid := uuid, notes := notes, iconId := iconId, customIconUuid := ciu, times := ⟨times.expires, times.usageCount, insertAll [] (ordered ords times.times)⟩, customData := insertAll [] (ordered ords.tail cd) } : GroupAcc)) "CustomData" _ _ _ _ _ ⟨[], _, rfl⟩
+        (groupDispatch_CustomData penv fp _)
+        ((reads_customData penv (ordered ords.tail cd) _ (fun p hp => hcd p (mem_ordered _ _ p hp)) hks).andThen _) ?_
+      refine LoopOk.child (acc' := ({ name := name, uuid := uuid, notes := notes, iconId := iconId, customIconUuid := ciu, times := ⟨times.expires, times.usageCount, insertAll [] (ordered ords times.times)⟩, customData := insertAll [] (ordered ords.tail cd), isExpanded := isExp } : GroupAcc)) "IsExpanded" [] [.chars (boolText isExp), .stop "IsExpanded"] _ _ _ _ (by rfl)
+        (groupDispatch_IsExpanded penv fp _) ((reads_tagReq .bool "IsExpanded" _ _ _ (parses_bool isExp)).andThen _) ?_
+      refine LoopOk.optChild das _ (fun (acc : GroupAcc) x => { acc with defaultAutotypeSequence := x }) "DefaultAutoTypeSequence" _ _ _ rfl
+        (fun a => ⟨[], _, rfl⟩) (groupDispatch_DAS penv fp _) ?_ ?_
+      · exact fun a hx => (reads_tagOpt_text "DefaultAutoTypeSequence" a _ (hdas a hx)).andThen _
+      refine LoopOk.optChild ea _ (fun (acc : GroupAcc) x => { acc with enableAutotype := x }) "EnableAutoType" _ _ _ rfl
+        (fun a => ⟨[], _, rfl⟩) (groupDispatch_EA penv fp _) ?_ ?_
+      · exact fun a hx => (reads_tagOpt_text "EnableAutoType" a _ (hea a hx)).andThen _
+      refine LoopOk.optChild es _ (fun (acc : GroupAcc) x => { acc with enableSearching := x }) "EnableSearching" _ _ _ rfl
+        (fun a => ⟨[], _, rfl⟩) (groupDispatch_ES penv fp _) ?_ ?_
+      · exact fun a hx => (reads_tagOpt_text "EnableSearching" a _ (hes a hx)).andThen _
+      refine LoopOk.optChild ltve _ (fun (acc : GroupAcc) x => { acc with lastTopVisibleEntry := x }) "LastTopVisibleEntry" _ _ _ rfl
+        (fun a => ⟨[], _, rfl⟩) (groupDispatch_LTVE penv fp _) ?_ ?_
+      · intro b hb
+        have hne' : b ≠ [] := by intro e; have := hltve b hb; rw [e] at this; simp at this
+        have : Reads (tagOpt .uuid) (el "LastTopVisibleEntry" (txt (b64Text b)))
+            (evCustomData penv.ks off (ordered ords.tail cd)).2 (some (.uuid b)) (evCustomData penv.ks off (ordered ords.tail cd)).2 := by
+          rw [txt_b64 _ hne']; exact reads_tagOpt_some .uuid "LastTopVisibleEntry" _ _ _ (parses_uuid b (hltve b hb))
+        exact this.andThen _
+      rw [← henv]
+      refine hCr fp hfp _ _ _ ?_
+      exact LoopOk.stop _ _ _ _ _ _
+    have hx : evGroupWith denv.ks off uuid name notes iconId ciu (ordered ords times.times) times (ordered ords.tail cd) isExp
+          das ea es ltve evsC
+        = .start "Group" [] :: (evGroupWith denv.ks off uuid name notes iconId ciu (ordered ords times.times) times
+          (ordered ords.tail cd) isExp das ea es ltve evsC).tail := rfl
+    rw [hx]
+    simp only [List.cons_append, bind, StateT.bind, expectStart, next, Outcome.bind, ite_true, pure, StateT.pure, fuelOf, get,
+      getThe, MonadStateOf.get, StateT.get]
+    rw [key _ (by simp)]
+    rfl
+
+theorem nodeDepth_group (uuid : Bytes) (name : String) (notes : Option String) (iconId : Option Nat) (ciu : Option Bytes)
+    (cs : List Node) (t : Times) (cd : CustomData) (isExp : Bool) (das ea es : Option String) (ltve : Option Bytes) :
+    nodeDepth (.group uuid name notes iconId ciu cs t cd isExp das ea es ltve) = 1 + nodeListDepth cs := rfl
+theorem nodeDepth_entry (e : Entry) : nodeDepth (.entry e) = 1 := rfl
+theorem nodeListDepth_cons (n : Node) (ns : List Node) : nodeListDepth (n :: ns) = max (nodeDepth n) (nodeListDepth ns) := rfl
+
+/-- the statement proved for one node, as a child of a group -/
+def NodeRT (denv : DEnv) (u : Bytes → Option String) (penv : Env) (fd B : Nat) (nd : Node) : Prop :=
+  ∀ (stk : List String) (off : Nat) (ords : Ords), ∃ evs off' ords' nd',
+    Dumps (dumpGroup denv u fd nd) stk off ords true evs stk off' ords' ∧
+    (∀ fp, B ≤ fp → ∀ (acc : GroupAcc) (rest : List Ev) (r : GroupAcc × PSt),
+        LoopOk "Group" (groupDispatch penv fp) skipUnknown { acc with children := acc.children ++ [nd'] } ⟨rest, off'⟩ r →
+        LoopOk "Group" (groupDispatch penv fp) skipUnknown acc ⟨evs ++ rest, off⟩ r) ∧
+    NodeEq nd nd' ∧ nodeDepth nd ≤ evs.length
+
+theorem children_rt (denv : DEnv) (u : Bytes → Option String) (penv : Env) (fd B : Nat) (cs : List Node)
+    (h : ∀ c ∈ cs, NodeRT denv u penv fd B c) : ChildrenRT denv u penv fd B cs := by
+  induction cs with
+  | nil =>
+    intro stk off ords ok
+    refine ⟨[], off, ords, [], Dumps.pure _ _ _ _, ?_, NodesEq.nil, Nat.le_refl _⟩
+    intro fp _ acc rest r hn
+    have : ({ acc with children := acc.children ++ [] } : GroupAcc) = acc := by cases acc; simp
+    rw [this] at hn
+    exact hn
+  | cons c cs ih =>
+    intro stk off ords ok
+    obtain ⟨evs1, off1, ords1, c', hd1, hr1, he1, hl1⟩ := h c List.mem_cons_self stk off ords
+    obtain ⟨evs2, off2, ords2, cs', hd2, hr2, he2, hl2⟩ := ih (fun x hx => h x (List.mem_cons_of_mem _ hx)) stk off1 ords1 ok
+    refine ⟨evs1 ++ evs2, off2, ords2, c' :: cs', ?_, ?_, NodesEq.cons _ _ _ _ he1 he2, ?_⟩
+    case refine_3 =>
+      rw [nodeListDepth_cons, List.length_append]
+      omega
+    · unfold childLoop
+      rw [List.forIn_cons]
+      have e1 : evs1 ++ evs2 = (evs1 ++ []) ++ evs2 := by simp
+      rw [e1]
+      refine Dumps.bind (s2 := stk) (o2 := off1) (q2 := ords1) (a := ForInStep.yield (true && ok)) ?_ ?_
+      · exact Dumps.bind hd1 (Dumps.pure _ _ _ _)
+      · rw [Bool.true_and]; exact hd2
+    · intro fp hfp acc rest r hn
+      rw [List.append_assoc]
+      refine hr1 fp hfp acc _ r ?_
+      refine hr2 fp hfp _ rest r ?_
+      have : ({ acc with children := acc.children ++ (c' :: cs') } : GroupAcc)
+          = { ({ acc with children := acc.children ++ [c'] } : GroupAcc) with children := (acc.children ++ [c']) ++ cs' } := by
+        simp
+      rw [this] at hn
+      exact hn
+
+
+theorem nodesOk_mem (l : List Node) (h : NodesOk l) : ∀ c ∈ l, NodeOk c := by
+  induction l with
+  | nil => intro c hc; cases hc
+  | cons x xs ih =>
+    intro c hc
+    cases h with
+    | cons _ _ hx hxs =>
+      cases hc with
+      | head => exact hx
+      | tail _ hm => exact ih hxs c hm
+
+theorem nodeListDepth_mem (l : List Node) : ∀ c ∈ l, nodeDepth c ≤ nodeListDepth l := by
+  induction l with
+  | nil => intro c hc; cases hc
+  | cons x xs ih =>
+    intro c hc
+    rw [nodeListDepth_cons]
+    cases hc with
+    | head => exact Nat.le_max_left _ _
+    | tail _ hm => exact Nat.le_trans (ih c hm) (Nat.le_max_right _ _)
+
+/-- a group of the domain, written with enough fuel, is read back as an equivalent group (`parseGroup` with any budget
+    no less than the nesting depth) -/
+def GroupRT (denv : DEnv) (u : Bytes → Option String) (penv : Env) (fd B : Nat) (nd : Node) : Prop :=
+  ∀ (stk : List String) (off : Nat) (ords : Ords), ∃ evs off' ords' nd',
+    Dumps (dumpGroup denv u fd nd) stk off ords true evs stk off' ords' ∧
+    (∀ fp, B ≤ fp → Reads (parseGroup penv fp) evs off nd' off') ∧
+    NodeEq nd nd' ∧ (∃ attrs tl, evs = .start "Group" attrs :: tl) ∧ nodeDepth nd ≤ evs.length
+
+theorem nodeRT_of_groupRT (denv : DEnv) (u : Bytes → Option String) (penv : Env) (fd B : Nat) (nd : Node)
+    (h : GroupRT denv u penv fd B nd) : NodeRT denv u penv fd B nd := by
+  intro stk off ords
+  obtain ⟨evs, off', ords', nd', hd, hr, he, hhd, hl⟩ := h stk off ords
+  refine ⟨evs, off', ords', nd', hd, ?_, he, hl⟩
+  intro fp hfp acc rest r hn
+  exact LoopOk.childL { acc with children := acc.children ++ [nd'] } "Group" evs rest off off' _ hhd
+    (groupDispatch_Group penv fp acc) ((hr fp hfp).andThen _) hn
+
+theorem nodeRT_entry (denv : DEnv) (u : Bytes → Option String) (penv : Env) (hks : ∀ o n, (penv.ks o n).length = n)
+    (henv : denv.ks = penv.ks) (e : Entry) (he : EntryOk e) (fd B : Nat) :
+    NodeRT denv u penv (fd + 1) B (.entry e) := by
+  intro stk off ords
+  obtain ⟨evs, off', ords', e', hd, hr, heq, hhd, hl⟩ :=
+    entry_rt denv u penv hks henv (entryDepth e) e (Nat.le_refl _) he (entryDepth e + 1) (Nat.le_succ _) stk off ords
+  refine ⟨evs, off', ords', .entry e', by rw [dumpGroup_entry]; exact hd, ?_, NodeEq.entry _ _ heq, ?_⟩
+  · intro fp _ acc rest r hn
+    refine LoopOk.childL { acc with children := acc.children ++ [.entry e'] } "Entry" evs rest off off' _ hhd
+      (groupDispatch_Entry penv fp acc) ?_ hn
+    intro rest'
+    have := hr ((evs ++ rest').length + 1) (by simp only [List.length_append]; omega) rest'
+    simp only [bind, StateT.bind, get, getThe, MonadStateOf.get, StateT.get, pure, StateT.pure, Outcome.bind, this]
+  · rw [nodeDepth_entry]
+    have := entryDepth_pos e
+    omega
+
+theorem groupRT_of_children (denv : DEnv) (u : Bytes → Option String) (penv : Env) (hks : ∀ o n, (penv.ks o n).length = n)
+    (henv : denv.ks = penv.ks) (fd B : Nat)
+    (uuid : Bytes) (name : String) (notes : Option String) (iconId : Option Nat) (ciu : Option Bytes) (cs : List Node)
+    (t : Times) (cd : CustomData) (isExp : Bool) (das ea es : Option String) (ltve : Option Bytes)
+    (hok : NodeOk (.group uuid name notes iconId ciu cs t cd isExp das ea es ltve))
+    (hc : ∀ c ∈ cs, NodeRT denv u penv fd B c) :
+    GroupRT denv u penv (fd + 1) (B + 1) (.group uuid name notes iconId ciu cs t cd isExp das ea es ltve) := by
+  cases hok with
+  | group _ _ _ _ _ _ _ _ _ _ _ _ _ hu hname hnotes hic hciu ht htn hcd hcdn hdas hea hes hltve hcs =>
+    intro stk off ords
+    obtain ⟨evs, off', ords', cs', hd, hr, he, hhd, hl⟩ := group_core denv u penv hks henv fd B uuid name notes iconId ciu cs t cd
+      isExp das ea es ltve hu hname hnotes hic hciu ht hcd hdas hea hes hltve (children_rt denv u penv fd B cs hc) stk off ords
+    refine ⟨evs, off', ords', (.group uuid name notes iconId ciu cs'
+          ⟨t.expires, t.usageCount, insertAll [] (ordered ords t.times)⟩
+          (insertAll [] (ordered ords.tail cd)) isExp das ea es ltve), hd, ?_, ?_, hhd, ?_⟩
+    · intro fp hfp
+      obtain ⟨fp', rfl⟩ : ∃ k, fp = k + 1 := ⟨fp - 1, by omega⟩
+      exact hr fp' (by omega)
+    · exact NodeEq.group uuid name notes iconId ciu cs cs' t _ cd _ isExp das ea es ltve
+        ⟨rfl, rfl, lookup_insertAll_ordered ords t.times htn⟩ (lookup_insertAll_ordered _ cd hcdn) he
+    · rw [nodeDepth_group]; exact hl
+
+/-- every node of the domain, written with enough fuel, is read back (as a child of a group) as an equivalent node -/
+theorem node_rt (denv : DEnv) (u : Bytes → Option String) (penv : Env) (hks : ∀ o n, (penv.ks o n).length = n)
+    (henv : denv.ks = penv.ks) :
+    ∀ (n : Nat) (nd : Node), nodeDepth nd ≤ n → NodeOk nd → ∀ fd, n ≤ fd → NodeRT denv u penv fd n nd := by
+  intro n
+  induction n with
+  | zero =>
+    intro nd hd
+    cases nd with
+    | entry e => rw [nodeDepth_entry] at hd; omega
+    | group => rw [nodeDepth_group] at hd; omega
+  | succ n ih =>
+    intro nd hd hok fd hfd
+    obtain ⟨fd', rfl⟩ : ∃ k, fd = k + 1 := ⟨fd - 1, by omega⟩
+    cases nd with
+    | entry e =>
+      cases hok with
+      | entry _ he => exact nodeRT_entry denv u penv hks henv e he fd' (n + 1)
+    | group uuid name notes iconId ciu cs t cd isExp das ea es ltve =>
+      refine nodeRT_of_groupRT denv u penv (fd' + 1) (n + 1) _
+        (groupRT_of_children denv u penv hks henv fd' n uuid name notes iconId ciu cs t cd isExp das ea es ltve hok ?_)
+      intro c hc
+      have hdc : nodeDepth c ≤ n := by
+        have := nodeListDepth_mem cs c hc
+        rw [nodeDepth_group] at hd
+        omega
+      cases hok with
+      | group _ _ _ _ _ _ _ _ _ _ _ _ _ _ _ _ _ _ _ _ _ _ _ _ _ _ hcs =>
+        exact ih c hdc (nodesOk_mem cs hcs c hc) fd' (by omega)
+
+/-- the root group -/
+theorem group_rt (denv : DEnv) (u : Bytes → Option String) (penv : Env) (hks : ∀ o n, (penv.ks o n).length = n)
+    (henv : denv.ks = penv.ks) (uuid : Bytes) (name : String) (notes : Option String) (iconId : Option Nat)
+    (ciu : Option Bytes) (cs : List Node) (t : Times) (cd : CustomData) (isExp : Bool) (das ea es : Option String)
+    (ltve : Option Bytes) (hok : NodeOk (.group uuid name notes iconId ciu cs t cd isExp das ea es ltve))
+    (fd : Nat) (hfd : nodeDepth (.group uuid name notes iconId ciu cs t cd isExp das ea es ltve) ≤ fd) :
+    GroupRT denv u penv fd (nodeDepth (.group uuid name notes iconId ciu cs t cd isExp das ea es ltve))
+      (.group uuid name notes iconId ciu cs t cd isExp das ea es ltve) := by
+  rw [nodeDepth_group] at hfd ⊢
+  obtain ⟨fd', rfl⟩ : ∃ k, fd = k + 1 := ⟨fd - 1, by omega⟩
+  rw [Nat.add_comm 1]
+  refine groupRT_of_children denv u penv hks henv fd' (nodeListDepth cs) uuid name notes iconId ciu cs t cd isExp das ea es ltve
+    hok ?_
+  intro c hc
+  cases hok with
+  | group _ _ _ _ _ _ _ _ _ _ _ _ _ _ _ _ _ _ _ _ _ _ _ _ _ _ hcs =>
+    exact node_rt denv u penv hks henv (nodeListDepth cs) c (nodeListDepth_mem cs c hc) (nodesOk_mem cs hcs c hc) fd' (by omega)
+
+
+/-! ### `Meta` -/
+
+theorem intText_neg (i : Int) (h : i < 0) : (intText i).toList = '-' :: Nat.toDigits 10 i.natAbs := by
+  simp [intText, h, String.toList_append]
+
+theorem intText_nonneg (i : Int) (h : ¬ i < 0) : (intText i).toList = Nat.toDigits 10 i.toNat := by
+  simp [intText, h]
+
+theorem isize_roundtrip (i : Int) (h1 : -9223372036854775808 ≤ i) (h2 : i ≤ 9223372036854775807) :
+    parseIsize (intText i) = some i := by
+  unfold parseIsize
+  by_cases hneg : i < 0
+  · simp only [intText_neg i hneg, digitsToNat_toDigits]
+    have : i.natAbs ≤ 9223372036854775808 := by omega
+    simp only [this, if_true]
+    congr 1; omega
+  · simp only [intText_nonneg i hneg]
+    split
+    · rename_i r heq; exact absurd heq (toDigits_head_ne_minus _ r)
+    · split
+      · rename_i v hv
+        split at hv
+        · rename_i r heq; exact absurd heq (toDigits_head_ne_plus _ r)
+        · rw [digitsToNat_toDigits] at hv
+          cases hv
+          have : i.toNat < 9223372036854775808 := by omega
+          simp only [this, if_true]
+          congr 1; omega
+      · rename_i hv
+        split at hv
+        · rename_i r heq; exact absurd heq (toDigits_head_ne_plus _ r)
+        · rw [digitsToNat_toDigits] at hv; cases hv
+
+
+theorem plain_int (i : Int) : ∀ c ∈ (intText i).toList, plainChar c = true := by
+  by_cases hneg : i < 0
+  · rw [intText_neg i hneg]
+    intro c hc
+    cases hc with
+    | head => decide
+    | tail _ hm => exact plain_digit c (Nat.isDigit_of_mem_toDigits (by decide) (by decide) hm)
+  · rw [intText_nonneg i hneg]
+    intro c hc; exact plain_digit c (Nat.isDigit_of_mem_toDigits (by decide) (by decide) hc)
+
+theorem xmlText_int (i : Int) : XmlText (intText i) := xmlText_of_plain _ (plain_int i)
+theorem txt_int (i : Int) : txt (intText i) = [.chars (intText i)] := by
+  refine txt_of_plain _ ?_ (plain_int i)
+  by_cases hneg : i < 0
+  · rw [intText_neg i hneg]; simp
+  · rw [intText_nonneg i hneg]; exact Nat.toDigits_ne_nil
+
+theorem parses_isize (i : Int) (h1 : -9223372036854775808 ≤ i) (h2 : i ≤ 9223372036854775807) :
+    Parses .isize (intText i) (.int i) := by
+  intro st; simp only [fromChars, isize_roundtrip i h1 h2]; rfl
+
+def IsizeOk (i : Int) : Prop := -9223372036854775808 ≤ i ∧ i ≤ 9223372036854775807
+def UsizeOk (n : Nat) : Prop := n < 18446744073709551616
+def UuidOk (b : Bytes) : Prop := b.length = 16
+def OptAll {α : Type} (p : α → Prop) (x : Option α) : Prop := ∀ a, x = some a → p a
+
+/-- the helper parsers of `parseMeta` on an optional tag as the writer emits it -/
+theorem reads_optText (n s : String) (off : Nat) (h : NonBlank s) :
+    Reads optText (el n (txt (id s))) off (some s) off :=
+  (reads_tagOpt_text n s off h).andThen _
+
+theorem reads_optTime (n : String) (t : Int) (off : Nat) (h : TimeOk t) :
+    Reads optTime (el n (txt (formatTimestamp t))) off (some t) off := by
+  rw [txt_time]; exact (reads_tagOpt_some .time n _ _ off (parses_time t h.1 h.2)).andThen _
+
+theorem reads_optUuid (n : String) (b : Bytes) (off : Nat) (h : UuidOk b) :
+    Reads optUuid (el n (txt (b64Text b))) off (some b) off := by
+  have hne : b ≠ [] := by intro e; unfold UuidOk at h; rw [e] at h; simp at h
+  rw [txt_b64 _ hne]; exact (reads_tagOpt_some .uuid n _ _ off (parses_uuid b h)).andThen _
+
+theorem reads_optUsize (n : String) (k : Nat) (off : Nat) (h : UsizeOk k) :
+    Reads optUsize (el n (txt (toString k))) off (some k) off := by
+  rw [txt_nat]; exact (reads_tagOpt_some .usize n _ _ off (parses_usize k h)).andThen _
+
+theorem reads_optIsize (n : String) (i : Int) (off : Nat) (h : IsizeOk i) :
+    Reads optIsize (el n (txt (intText i))) off (some i) off := by
+  rw [txt_int]; exact (reads_tagOpt_some .isize n _ _ off (parses_isize i h.1 h.2)).andThen _
+
+theorem reads_optBool (n : String) (b : Bool) (off : Nat) :
+    Reads (tagOpt .bool) (el n (txt (boolText b))) off (some (.bool b)) off := by
+  rw [txt_bool]; exact reads_tagOpt_some .bool n _ _ off (parses_bool b)
+
+/-! #### memory protection -/
+
+def evMemProt (p : MemoryProtection) : List Ev :=
+  el "MemoryProtection" (el "ProtectTitle" [.chars (boolText p.title)] ++ (el "ProtectUserName" [.chars (boolText p.username)] ++
+    (el "ProtectPassword" [.chars (boolText p.password)] ++ (el "ProtectURL" [.chars (boolText p.url)] ++
+    el "ProtectNotes" [.chars (boolText p.notes)]))))
+
+def memProtDispatch : String → MemoryProtection → Option (P MemoryProtection) := fun name acc =>
+    if name = "ProtectTitle" then some (do pure { acc with title := (← tagReq .bool).toBool })
+    else if name = "ProtectUserName" then some (do pure { acc with username := (← tagReq .bool).toBool })
+    else if name = "ProtectPassword" then some (do pure { acc with password := (← tagReq .bool).toBool })
+    else if name = "ProtectURL" then some (do pure { acc with url := (← tagReq .bool).toBool })
+    else if name = "ProtectNotes" then some (do pure { acc with notes := (← tagReq .bool).toBool })
+    else none
+
+theorem parseMemoryProtection_eq : parseMemoryProtection = (do
+    let _ ← expectStart "MemoryProtection"
+    structLoop "MemoryProtection" memProtDispatch skipUnknown (← fuelOf) {}) := rfl
+
+theorem reads_memProt (p : MemoryProtection) (off : Nat) : Reads parseMemoryProtection (evMemProt p) off p off := by
+  intro rest
+  obtain ⟨a, b, c, d, e⟩ := p
+  rw [parseMemoryProtection_eq]
+  simp only [evMemProt, el, List.cons_append, bind, StateT.bind, expectStart, next, Outcome.bind, ite_true,
+    pure, StateT.pure, fuelOf, get, getThe, MonadStateOf.get, StateT.get]
+  simp only [List.append_assoc, List.cons_append, List.nil_append]
+  refine (?_ : LoopOk _ _ _ _ _ _) _ (by simp)
+  refine LoopOk.child (acc' := ({ title := a } : MemoryProtection)) "ProtectTitle" [] [.chars (boolText a), .stop "ProtectTitle"] _ off off _ (by rfl)
+    (by simp [memProtDispatch]; rfl) ((reads_tagReq .bool "ProtectTitle" _ _ off (parses_bool a)).andThen _) ?_
+  refine LoopOk.child (acc' := ({ title := a, username := b } : MemoryProtection)) "ProtectUserName" [] [.chars (boolText b), .stop "ProtectUserName"] _ off off _ (by rfl)
+    (by simp [memProtDispatch]; rfl) ((reads_tagReq .bool "ProtectUserName" _ _ off (parses_bool b)).andThen _) ?_
+  refine LoopOk.child (acc' := ({ title := a, username := b, password := c } : MemoryProtection)) "ProtectPassword" [] [.chars (boolText c), .stop "ProtectPassword"] _ off off _ (by rfl)
+    (by simp [memProtDispatch]; rfl) ((reads_tagReq .bool "ProtectPassword" _ _ off (parses_bool c)).andThen _) ?_
+  refine LoopOk.child (acc' := ({ title := a, username := b, password := c, url := d } : MemoryProtection)) "ProtectURL" [] [.chars (boolText d), .stop "ProtectURL"] _ off off _ (by rfl)
+    (by simp [memProtDispatch]; rfl) ((reads_tagReq .bool "ProtectURL" _ _ off (parses_bool d)).andThen _) ?_
+  refine LoopOk.child (acc' := ({ title := a, username := b, password := c, url := d, notes := e } : MemoryProtection)) "ProtectNotes" [] [.chars (boolText e), .stop "ProtectNotes"] _ off off _ (by rfl)
+    (by simp [memProtDispatch]; rfl) ((reads_tagReq .bool "ProtectNotes" _ _ off (parses_bool e)).andThen _) ?_
+  exact LoopOk.stop _ _ _ _ _ _
+
+
+/-! #### custom icons -/
+
+def evIcon (p : Bytes × Bytes) : List Ev :=
+  el "Icon" (el "UUID" [.chars (b64Text p.1)] ++ el "Data" [.chars (b64Text p.2)])
+
+def IconOk (p : Bytes × Bytes) : Prop := p.1.length = 16 ∧ p.2 ≠ []
+
+def iconDispatch : String → (Bytes × Bytes) → Option (P (Bytes × Bytes)) := fun name acc =>
+    if name = "UUID" then some (do pure ((← tagReq .uuid).toUuid, acc.2))
+    else if name = "Data" then some (do
+      let d := (← tagReq .text).str
+      match b64Decode d.toList with
+      | some b => pure (acc.1, b)
+      | none => fail)
+    else none
+
+theorem parseIcon_eq : parseIcon = (do
+    let _ ← expectStart "Icon"
+    structLoop "Icon" iconDispatch skipUnknown (← fuelOf) (List.replicate 16 0, [])) := rfl
+
+theorem reads_icon (p : Bytes × Bytes) (off : Nat) (h : IconOk p) : Reads parseIcon (evIcon p) off p off := by
+  intro rest
+  obtain ⟨uu, data⟩ := p
+  rw [parseIcon_eq]
+  simp only [evIcon, el, List.cons_append, bind, StateT.bind, expectStart, next, Outcome.bind, ite_true,
+    pure, StateT.pure, fuelOf, get, getThe, MonadStateOf.get, StateT.get]
+  simp only [List.append_assoc, List.cons_append, List.nil_append]
+  refine (?_ : LoopOk _ _ _ _ _ _) _ (by simp)
+  refine LoopOk.child (acc' := (uu, [])) "UUID" [] [.chars (b64Text uu), .stop "UUID"] _ off off _ (by rfl)
+    (by simp [iconDispatch]; rfl) ((reads_tagReq .uuid "UUID" _ _ off (parses_uuid uu h.1)).andThen _) ?_
+  refine LoopOk.child (acc' := (uu, data)) "Data" [] [.chars (b64Text data), .stop "Data"] _ off off _ (by rfl)
+    (by simp [iconDispatch]; rfl) ?_ ?_
+  · intro rest'
+    have h0 : tagReq .text ⟨[Ev.start "Data" [], Ev.chars (b64Text data), Ev.stop "Data"] ++ rest', off⟩
+        = .ok (.text (b64Text data), ⟨rest', off⟩) := reads_tagReq .text "Data" _ _ off (parses_text (b64Text data)) rest'
+    rw [P_bind_ok _ _ _ _ _ h0]
+    simp only [Scalar.str, b64Text_toList, b64_roundtrip]
+    rfl
+  exact LoopOk.stop _ _ _ _ _ _
+
+def iconsDispatch : String → List (Bytes × Bytes) → Option (P (List (Bytes × Bytes))) := fun name acc =>
+    if name = "Icon" then some (do pure (acc ++ [← parseIcon])) else none
+
+theorem parseCustomIcons_eq : parseCustomIcons = (do
+    let _ ← expectStart "CustomIcons"
+    structLoop "CustomIcons" iconsDispatch skipUnknown (← fuelOf) []) := rfl
+
+theorem iconsLoop_items (l : List (Bytes × Bytes)) : ∀ (acc : List (Bytes × Bytes)) (rest : List Ev) (off : Nat) (r),
+    (∀ p ∈ l, IconOk p) →
+    LoopOk "CustomIcons" iconsDispatch skipUnknown (acc ++ l) ⟨rest, off⟩ r →
+    LoopOk "CustomIcons" iconsDispatch skipUnknown acc ⟨l.flatMap evIcon ++ rest, off⟩ r := by
+  induction l with
+  | nil => intro acc rest off r _ h; simpa using h
+  | cons a l ih =>
+    intro acc rest off r h hn
+    rw [List.flatMap_cons, List.append_assoc]
+    refine LoopOk.childL (acc ++ [a]) "Icon" _ _ off off _ ⟨[], _, rfl⟩
+      (by simp [iconsDispatch]; rfl) ((reads_icon a off (h a List.mem_cons_self)).andThen _) ?_
+    refine ih _ rest off r (fun x hx => h x (List.mem_cons_of_mem _ hx)) ?_
+    simpa [List.append_assoc] using hn
+
+def evCustomIcons (l : List (Bytes × Bytes)) : List Ev := el "CustomIcons" (l.flatMap evIcon)
+
+theorem reads_customIcons (l : List (Bytes × Bytes)) (off : Nat) (h : ∀ p ∈ l, IconOk p) :
+    Reads parseCustomIcons (evCustomIcons l) off l off := by
+  intro rest
+  rw [parseCustomIcons_eq]
+  simp only [evCustomIcons, el, List.cons_append, bind, StateT.bind, expectStart, next, Outcome.bind, ite_true,
+    pure, StateT.pure, fuelOf, get, getThe, MonadStateOf.get, StateT.get]
+  simp only [List.append_assoc, List.cons_append, List.nil_append]
+  refine (?_ : LoopOk _ _ _ _ _ _) _ (by simp)
+  refine iconsLoop_items l [] _ off _ h ?_
+  exact LoopOk.stop _ _ _ _ _ _
+
+theorem dumps_icons (stk : List String) (off : Nat) (ords : Ords) (l : List (Bytes × Bytes)) :
+    Dumps (forIn l PUnit.unit fun x (_ : PUnit) =>
+            match x with
+            | (uuid, data) => do
+              emit (WEv.start "Icon" [])
+              tagRaw "UUID" (b64Text uuid)
+              tagText "Data" (b64Text data)
+              emit WEv.stop
+              pure (ForInStep.yield PUnit.unit)) stk off ords PUnit.unit
+      (l.flatMap fun p => el "Icon" (el "UUID" (txt (b64Text p.1)) ++ el "Data" (txt (b64Text p.2)))) stk off ords := by
+  induction l with
+  | nil => exact Dumps.pure _ _ _ _
+  | cons p l ih =>
+    obtain ⟨uu, data⟩ := p
+    rw [List.forIn_cons]
+    have e : List.flatMap (fun p : Bytes × Bytes => el "Icon" (el "UUID" (txt (b64Text p.1)) ++ el "Data" (txt (b64Text p.2)))) ((uu, data) :: l)
+        = ([.start "Icon" []] ++ (el "UUID" (txt (b64Text uu)) ++ (el "Data" (txt (b64Text data)) ++ ([.stop "Icon"] ++ []))))
+          ++ l.flatMap (fun p : Bytes × Bytes => el "Icon" (el "UUID" (txt (b64Text p.1)) ++ el "Data" (txt (b64Text p.2)))) := by
+      simp [List.flatMap_cons, el]
+    rw [e]
+    refine Dumps.bind (s2 := stk) (o2 := off) (q2 := ords) (a := ForInStep.yield PUnit.unit) ?_ ih
+    refine Dumps.bind (Dumps.emit_start "Icon" [] stk off ords (by decide) rfl) ?_
+    refine Dumps.bind (Dumps.tagRaw "UUID" (b64Text uu) _ off ords (by decide) (xmlText_b64 _)) ?_
+    refine Dumps.bind (Dumps.tagText "Data" (b64Text data) _ off ords (by decide) (xmlText_b64 _)) ?_
+    exact Dumps.bind (Dumps.emit_stop "Icon" stk _ ords) (Dumps.pure _ _ _ _)
+
+theorem icons_ev_eq (l : List (Bytes × Bytes)) (h : ∀ p ∈ l, IconOk p) :
+    (l.flatMap fun p => el "Icon" (el "UUID" (txt (b64Text p.1)) ++ el "Data" (txt (b64Text p.2)))) = l.flatMap evIcon := by
+  induction l with
+  | nil => rfl
+  | cons p l ih =>
+    have hp := h p List.mem_cons_self
+    have h1 : p.1 ≠ [] := by intro e; have := hp.1; rw [e] at this; simp at this
+    simp only [List.flatMap_cons, evIcon, txt_b64 _ h1, txt_b64 _ hp.2, ih (fun x hx => h x (List.mem_cons_of_mem _ hx))]
+
+
+/-! #### the binary pool in `<Meta>` -/
+
+def binAttrs (b : BinaryAttachment) : List (String × String) :=
+  (match b.identifier with | some i => [("ID", i)] | none => []) ++ (if b.compressed then [("Compressed", "True")] else [])
+
+def binPayload (gz : Bytes → Bytes) (b : BinaryAttachment) : Bytes := if b.compressed then gz b.content else b.content
+
+def evBinary (gz : Bytes → Bytes) (b : BinaryAttachment) : List Ev :=
+  [.start "Binary" (binAttrs b), .chars (b64Text (binPayload gz b)), .stop "Binary"]
+
+def BinaryOk (gz : Bytes → Bytes) (b : BinaryAttachment) : Prop :=
+  (∀ i, b.identifier = some i → XmlText i) ∧ binPayload gz b ≠ []
+
+theorem reads_binary (env : Env) (gz : Bytes → Bytes) (hgz : ∀ m, env.gunzip (gz m) = some m) (b : BinaryAttachment)
+    (off : Nat) : Reads (parseBinaryAttachment env) (evBinary gz b) off b off := by
+  intro rest
+  obtain ⟨ident, comp, content⟩ := b
+  have hb : parseBool "True" = some true := by decide
+  cases ident <;> cases comp <;>
+    simp [parseBinaryAttachment, evBinary, binAttrs, binPayload, bind, StateT.bind, next, Outcome.bind, List.lookup, pure,
+      StateT.pure, scalarReq, fromChars, Scalar.str, b64Text_toList, b64_roundtrip, hb, hgz]
+
+def binariesDispatch (env : Env) : String → List BinaryAttachment → Option (P (List BinaryAttachment)) := fun name acc =>
+    if name = "Binary" then some (do pure (acc ++ [← parseBinaryAttachment env])) else none
+
+theorem parseBinaries_eq (env : Env) : parseBinaries env = (do
+    let _ ← expectStart "Binaries"
+    structLoop "Binaries" (binariesDispatch env) skipUnknown (← fuelOf) []) := rfl
+
+theorem binariesLoop_items (env : Env) (gz : Bytes → Bytes) (hgz : ∀ m, env.gunzip (gz m) = some m)
+    (l : List BinaryAttachment) : ∀ (acc : List BinaryAttachment) (rest : List Ev) (off : Nat) (r),
+    LoopOk "Binaries" (binariesDispatch env) skipUnknown (acc ++ l) ⟨rest, off⟩ r →
+    LoopOk "Binaries" (binariesDispatch env) skipUnknown acc ⟨l.flatMap (evBinary gz) ++ rest, off⟩ r := by
+  induction l with
+  | nil => intro acc rest off r h; simpa using h
+  | cons a l ih =>
+    intro acc rest off r hn
+    rw [List.flatMap_cons, List.append_assoc]
+    refine LoopOk.childL (acc ++ [a]) "Binary" _ _ off off _ ⟨_, _, rfl⟩
+      (by simp [binariesDispatch]; rfl) ((reads_binary env gz hgz a off).andThen _) ?_
+    refine ih _ rest off r ?_
+    simpa [List.append_assoc] using hn
+
+def evBinaries (gz : Bytes → Bytes) (l : List BinaryAttachment) : List Ev := el "Binaries" (l.flatMap (evBinary gz))
+
+theorem reads_binaries (env : Env) (gz : Bytes → Bytes) (hgz : ∀ m, env.gunzip (gz m) = some m)
+    (l : List BinaryAttachment) (off : Nat) :
+    Reads (parseBinaries env) (evBinaries gz l) off l off := by
+  intro rest
+  rw [parseBinaries_eq]
+  simp only [evBinaries, el, List.cons_append, bind, StateT.bind, expectStart, next, Outcome.bind, ite_true,
+    pure, StateT.pure, fuelOf, get, getThe, MonadStateOf.get, StateT.get]
+  simp only [List.append_assoc, List.cons_append, List.nil_append]
+  refine (?_ : LoopOk _ _ _ _ _ _) _ (by simp)
+  refine binariesLoop_items env gz hgz l [] _ off _ ?_
+  exact LoopOk.stop _ _ _ _ _ _
+
+theorem dumps_binaries (env : DEnv) (stk : List String) (off : Nat) (ords : Ords) (l : List BinaryAttachment)
+    (h : ∀ b ∈ l, BinaryOk env.gzip b) :
+    Dumps (forIn l PUnit.unit fun b (_ : PUnit) =>
+            have attrs :=
+              (match b.identifier with
+                | some i => [("ID", i)]
+                | none => []) ++
+                if b.compressed = true then [("Compressed", "True")] else [];
+            do
+            emit (WEv.start "Binary" attrs)
+            emit (WEv.chars (b64Text (if b.compressed = true then env.gzip b.content else b.content)))
+            emit WEv.stop
+            pure (ForInStep.yield PUnit.unit)) stk off ords PUnit.unit (l.flatMap (evBinary env.gzip)) stk off ords := by
+  induction l with
+  | nil => exact Dumps.pure _ _ _ _
+  | cons b l ih =>
+    rw [List.forIn_cons]
+    have hb := h b List.mem_cons_self
+    have e : List.flatMap (evBinary env.gzip) (b :: l)
+        = ([.start "Binary" (binAttrs b)] ++ ([.chars (b64Text (binPayload env.gzip b))] ++ ([.stop "Binary"] ++ [])))
+          ++ l.flatMap (evBinary env.gzip) := by
+      simp [List.flatMap_cons, evBinary]
+    rw [e]
+    refine Dumps.bind (s2 := stk) (o2 := off) (q2 := ords) (a := ForInStep.yield PUnit.unit) ?_ (ih (fun x hx => h x (List.mem_cons_of_mem _ hx)))
+    have hattrs : (binAttrs b).any (fun a => a.2.toList.any invalidXmlChar) = false := by
+      obtain ⟨ident, comp, content⟩ := b
+      cases ident with
+      | none => cases comp <;> simp [binAttrs] <;> decide
+      | some i =>
+        have hi : i.toList.any invalidXmlChar = false := hb.1 i rfl
+        cases comp <;> simp [binAttrs, hi] <;> decide
+    refine Dumps.bind (Dumps.emit_start "Binary" (binAttrs b) stk off ords (by decide) hattrs) ?_
+    have hc := Dumps.emit_chars (b64Text (binPayload env.gzip b)) ("Binary" :: stk) off ords (xmlText_b64 _)
+    rw [txt_b64 _ hb.2] at hc
+    refine Dumps.bind hc ?_
+    exact Dumps.bind (Dumps.emit_stop "Binary" stk _ ords) (Dumps.pure _ _ _ _)
+
+
+/-! #### `Meta` itself -/
+
+def dumpOptMemProt : Option MemoryProtection → D Unit
+  | some p => do
+    emit (WEv.start "MemoryProtection" [])
+    tagRaw "ProtectTitle" (boolText p.title)
+    tagRaw "ProtectUserName" (boolText p.username)
+    tagRaw "ProtectPassword" (boolText p.password)
+    tagRaw "ProtectURL" (boolText p.url)
+    tagRaw "ProtectNotes" (boolText p.notes)
+    emit WEv.stop
+  | none => pure ()
+
+theorem dumps_optMemProt (x : Option MemoryProtection) (stk : List String) (off : Nat) (ords : Ords) :
+    Dumps (dumpOptMemProt x) stk off ords () (optList evMemProt x) stk off ords := by
+  cases x with
+  | none => exact Dumps.pure _ _ _ _
+  | some p =>
+    have e : optList evMemProt (some p) = [.start "MemoryProtection" []] ++ (el "ProtectTitle" [.chars (boolText p.title)] ++
+        (el "ProtectUserName" [.chars (boolText p.username)] ++ (el "ProtectPassword" [.chars (boolText p.password)] ++
+        (el "ProtectURL" [.chars (boolText p.url)] ++ (el "ProtectNotes" [.chars (boolText p.notes)] ++ [.stop "MemoryProtection"]))))) := by
+      simp [optList, evMemProt, el]
+    rw [e]
+    have tb : ∀ (n : String) (b : Bool) (s : List String), NameOk n → Dumps (tagRaw n (boolText b)) s off ords () (el n [.chars (boolText b)]) s off ords := by
+      intro n b s hn
+      have := Dumps.tagRaw n (boolText b) s off ords hn (xmlText_bool _)
+      rwa [txt_bool] at this
+    refine Dumps.bind (Dumps.emit_start "MemoryProtection" [] stk off ords (by decide) rfl) ?_
+    refine Dumps.bind (tb "ProtectTitle" p.title _ (by decide)) ?_
+    refine Dumps.bind (tb "ProtectUserName" p.username _ (by decide)) ?_
+    refine Dumps.bind (tb "ProtectPassword" p.password _ (by decide)) ?_
+    refine Dumps.bind (tb "ProtectURL" p.url _ (by decide)) ?_
+    refine Dumps.bind (tb "ProtectNotes" p.notes _ (by decide)) ?_
+    exact Dumps.emit_stop "MemoryProtection" stk off ords
+def dumpCustomIcons (l : List (Bytes × Bytes)) : D Unit := do
+  emit (WEv.start "CustomIcons" [])
+  forIn l PUnit.unit fun x (_ : PUnit) =>
+        match x with
+        | (uuid, data) => do
+          emit (WEv.start "Icon" [])
+          tagRaw "UUID" (b64Text uuid)
+          tagText "Data" (b64Text data)
+          emit WEv.stop
+          pure (ForInStep.yield PUnit.unit)
+  emit WEv.stop
+
+def dumpBinaries (env : DEnv) (l : List BinaryAttachment) : D Unit := do
+  emit (WEv.start "Binaries" [])
+  forIn l PUnit.unit fun b (_ : PUnit) =>
+        have attrs :=
+          (match b.identifier with
+            | some i => [("ID", i)]
+            | none => []) ++
+            if b.compressed = true then [("Compressed", "True")] else [];
+        do
+        emit (WEv.start "Binary" attrs)
+        emit (WEv.chars (b64Text (if b.compressed = true then env.gzip b.content else b.content)))
+        emit WEv.stop
+        pure (ForInStep.yield PUnit.unit)
+  emit WEv.stop
+
+theorem dumps_customIcons (l : List (Bytes × Bytes)) (stk : List String) (off : Nat) (ords : Ords) (h : ∀ p ∈ l, IconOk p) :
+    Dumps (dumpCustomIcons l) stk off ords () (evCustomIcons l) stk off ords := by
+  have e : evCustomIcons l = [.start "CustomIcons" []] ++
+      ((l.flatMap fun p => el "Icon" (el "UUID" (txt (b64Text p.1)) ++ el "Data" (txt (b64Text p.2)))) ++ [.stop "CustomIcons"]) := by
+    rw [icons_ev_eq l h]; simp [evCustomIcons, el]
+  rw [e]
+  refine Dumps.bind (Dumps.emit_start "CustomIcons" [] stk off ords (by decide) rfl) ?_
+  refine Dumps.bind (dumps_icons _ off ords l) ?_
+  exact Dumps.emit_stop "CustomIcons" stk off ords
+
+theorem dumps_binariesEl (env : DEnv) (l : List BinaryAttachment) (stk : List String) (off : Nat) (ords : Ords)
+    (h : ∀ b ∈ l, BinaryOk env.gzip b) :
+    Dumps (dumpBinaries env l) stk off ords () (evBinaries env.gzip l) stk off ords := by
+  have e : evBinaries env.gzip l = [.start "Binaries" []] ++ (l.flatMap (evBinary env.gzip) ++ [.stop "Binaries"]) := by
+    simp [evBinaries, el]
+  rw [e]
+  refine Dumps.bind (Dumps.emit_start "Binaries" [] stk off ords (by decide) rfl) ?_
+  refine Dumps.bind (dumps_binaries env _ off ords l h) ?_
+  exact Dumps.emit_stop "Binaries" stk off ords
+
+theorem dumpMeta_eq (env : DEnv) (u : Bytes → Option String) (m : Meta) : dumpMeta env u m = (do
+      emit (WEv.start "Meta" [])
+      optTag "Generator" id false m.generator
+      optTag "DatabaseName" id false m.databaseName
+      optTag "DatabaseNameChanged" formatTimestamp true m.databaseNameChanged
+      optTag "DatabaseDescription" id false m.databaseDescription
+      optTag "DatabaseDescriptionChanged" formatTimestamp true m.databaseDescriptionChanged
+      optTag "DefaultUserName" id false m.defaultUsername
+      optTag "DefaultUserNameChanged" formatTimestamp true m.defaultUsernameChanged
+      optTag "MaintenanceHistoryDays" (fun (n : Nat) => toString n) true m.maintenanceHistoryDays
+      optTag "Color" colorText true m.color
+      optTag "MasterKeyChanged" formatTimestamp true m.masterKeyChanged
+      optTag "MasterKeyChangeRec" intText true m.masterKeyChangeRec
+      optTag "MasterKeyChangeForce" intText true m.masterKeyChangeForce
+      dumpOptMemProt m.memoryProtection
+      dumpCustomIcons m.customIcons
+      optTag "RecycleBinEnabled" boolText true m.recyclebinEnabled
+      optTag "RecycleBinUUID" b64Text true m.recyclebinUuid
+      optTag "RecycleBinChanged" formatTimestamp true m.recyclebinChanged
+      optTag "EntryTemplatesGroup" b64Text true m.entryTemplatesGroup
+      optTag "EntryTemplatesGroupChanged" formatTimestamp true m.entryTemplatesGroupChanged
+      optTag "LastSelectedGroup" b64Text true m.lastSelectedGroup
+      optTag "LastTopVisibleGroup" b64Text true m.lastTopVisibleGroup
+      optTag "HistoryMaxItems" (fun (n : Nat) => toString n) true m.historyMaxItems
+      optTag "HistoryMaxSize" (fun (n : Nat) => toString n) true m.historyMaxSize
+      optTag "SettingsChanged" formatTimestamp true m.settingsChanged
+      dumpBinaries env m.binaries
+      let ok ← dumpCustomData env u m.customData
+      emit WEv.stop
+      pure ok) := by
+  obtain ⟨generator, databaseName, databaseNameChanged, databaseDescription, databaseDescriptionChanged, defaultUsername, defaultUsernameChanged, maintenanceHistoryDays, color, masterKeyChanged, masterKeyChangeRec, masterKeyChangeForce, memoryProtection, customIcons, recyclebinEnabled, recyclebinUuid, recyclebinChanged, entryTemplatesGroup, entryTemplatesGroupChanged, lastSelectedGroup, lastTopVisibleGroup, historyMaxItems, historyMaxSize, settingsChanged, binaries, customData⟩ := m
+  cases memoryProtection <;> rfl
+
+def metaDispatch (env : Env) : String → Meta → Option (P Meta) := fun name acc =>
+    if name = "Generator" then some (do pure { acc with generator := (← optText) })
+    else if name = "DatabaseName" then some (do pure { acc with databaseName := (← optText) })
+    else if name = "DatabaseNameChanged" then some (do pure { acc with databaseNameChanged := (← optTime) })
+    else if name = "DatabaseDescription" then some (do pure { acc with databaseDescription := (← optText) })
+    else if name = "DatabaseDescriptionChanged" then some (do pure { acc with databaseDescriptionChanged := (← optTime) })
+    else if name = "DefaultUserName" then some (do pure { acc with defaultUsername := (← optText) })
+    else if name = "DefaultUserNameChanged" then some (do pure { acc with defaultUsernameChanged := (← optTime) })
+    else if name = "MaintenanceHistoryDays" then some (do pure { acc with maintenanceHistoryDays := (← optUsize) })
+    else if name = "Color" then some (do pure { acc with color := (← tagOpt .color).map Scalar.toColor })
+    else if name = "MasterKeyChanged" then some (do pure { acc with masterKeyChanged := (← optTime) })
+    else if name = "MasterKeyChangeRec" then some (do pure { acc with masterKeyChangeRec := (← optIsize) })
+    else if name = "MasterKeyChangeForce" then some (do pure { acc with masterKeyChangeForce := (← optIsize) })
+    else if name = "MemoryProtection" then some (do pure { acc with memoryProtection := some (← parseMemoryProtection) })
+    else if name = "CustomIcons" then some (do pure { acc with customIcons := (← parseCustomIcons) })
+    else if name = "RecycleBinEnabled" then some (do pure { acc with recyclebinEnabled := (← tagOpt .bool).map Scalar.toBool })
+    else if name = "RecycleBinUUID" then some (do pure { acc with recyclebinUuid := (← optUuid) })
+    else if name = "RecycleBinChanged" then some (do pure { acc with recyclebinChanged := (← optTime) })
+    else if name = "EntryTemplatesGroup" then some (do pure { acc with entryTemplatesGroup := (← optUuid) })
+    else if name = "EntryTemplatesGroupChanged" then some (do pure { acc with entryTemplatesGroupChanged := (← optTime) })
+    else if name = "LastSelectedGroup" then some (do pure { acc with lastSelectedGroup := (← optUuid) })
+    else if name = "LastTopVisibleGroup" then some (do pure { acc with lastTopVisibleGroup := (← optUuid) })
+    else if name = "HistoryMaxItems" then some (do pure { acc with historyMaxItems := (← optUsize) })
+    else if name = "HistoryMaxSize" then some (do pure { acc with historyMaxSize := (← optUsize) })
+    else if name = "SettingsChanged" then some (do pure { acc with settingsChanged := (← optTime) })
+    else if name = "Binaries" then some (do pure { acc with binaries := (← parseBinaries env) })
+    else if name = "CustomData" then some (do pure { acc with customData := (← parseCustomData env) })
+    else none
+
+theorem parseMeta_eq (env : Env) : parseMeta env = (do
+    let _ ← expectStart "Meta"
+    structLoop "Meta" (metaDispatch env) skipUnknown (← fuelOf) {}) := rfl
+
+theorem metaDispatch_Generator (env : Env) (acc : Meta) :
+    metaDispatch env "Generator" acc = some (do pure { acc with generator := (← optText) }) := by
+  simp [metaDispatch]
+theorem metaDispatch_DatabaseName (env : Env) (acc : Meta) :
+    metaDispatch env "DatabaseName" acc = some (do pure { acc with databaseName := (← optText) }) := by
+  simp [metaDispatch]
+theorem metaDispatch_DatabaseNameChanged (env : Env) (acc : Meta) :
+    metaDispatch env "DatabaseNameChanged" acc = some (do pure { acc with databaseNameChanged := (← optTime) }) := by
+  simp [metaDispatch]
+theorem metaDispatch_DatabaseDescription (env : Env) (acc : Meta) :
+    metaDispatch env "DatabaseDescription" acc = some (do pure { acc with databaseDescription := (← optText) }) := by
+  simp [metaDispatch]
+theorem metaDispatch_DatabaseDescriptionChanged (env : Env) (acc : Meta) :
+    metaDispatch env "DatabaseDescriptionChanged" acc = some (do pure { acc with databaseDescriptionChanged := (← optTime) }) := by
+  simp [metaDispatch]
+theorem metaDispatch_DefaultUserName (env : Env) (acc : Meta) :
+    metaDispatch env "DefaultUserName" acc = some (do pure { acc with defaultUsername := (← optText) }) := by
+  simp [metaDispatch]
+theorem metaDispatch_DefaultUserNameChanged (env : Env) (acc : Meta) :
+    metaDispatch env "DefaultUserNameChanged" acc = some (do pure { acc with defaultUsernameChanged := (← optTime) }) := by
+  simp [metaDispatch]
+theorem metaDispatch_MaintenanceHistoryDays (env : Env) (acc : Meta) :
+    metaDispatch env "MaintenanceHistoryDays" acc = some (do pure { acc with maintenanceHistoryDays := (← optUsize) }) := by
+  simp [metaDispatch]
+theorem metaDispatch_Color (env : Env) (acc : Meta) :
+    metaDispatch env "Color" acc = some (do pure { acc with color := (← tagOpt .color).map Scalar.toColor }) := by
+  simp [metaDispatch]
+theorem metaDispatch_MasterKeyChanged (env : Env) (acc : Meta) :
+    metaDispatch env "MasterKeyChanged" acc = some (do pure { acc with masterKeyChanged := (← optTime) }) := by
+  simp [metaDispatch]
+theorem metaDispatch_MasterKeyChangeRec (env : Env) (acc : Meta) :
+    metaDispatch env "MasterKeyChangeRec" acc = some (do pure { acc with masterKeyChangeRec := (← optIsize) }) := by
+  simp [metaDispatch]
+theorem metaDispatch_MasterKeyChangeForce (env : Env) (acc : Meta) :
+    metaDispatch env "MasterKeyChangeForce" acc = some (do pure { acc with masterKeyChangeForce := (← optIsize) }) := by
+  simp [metaDispatch]
+theorem metaDispatch_MemoryProtection (env : Env) (acc : Meta) :
+    metaDispatch env "MemoryProtection" acc = some (do pure { acc with memoryProtection := some (← parseMemoryProtection) }) := by
+  simp [metaDispatch]
+theorem metaDispatch_CustomIcons (env : Env) (acc : Meta) :
+    metaDispatch env "CustomIcons" acc = some (do pure { acc with customIcons := (← parseCustomIcons) }) := by
+  simp [metaDispatch]
+theorem metaDispatch_RecycleBinEnabled (env : Env) (acc : Meta) :
+    metaDispatch env "RecycleBinEnabled" acc = some (do pure { acc with recyclebinEnabled := (← tagOpt .bool).map Scalar.toBool }) := by
+  simp [metaDispatch]
+theorem metaDispatch_RecycleBinUUID (env : Env) (acc : Meta) :
+    metaDispatch env "RecycleBinUUID" acc = some (do pure { acc with recyclebinUuid := (← optUuid) }) := by
+  simp [metaDispatch]
+theorem metaDispatch_RecycleBinChanged (env : Env) (acc : Meta) :
+    metaDispatch env "RecycleBinChanged" acc = some (do pure { acc with recyclebinChanged := (← optTime) }) := by
+  simp [metaDispatch]
+theorem metaDispatch_EntryTemplatesGroup (env : Env) (acc : Meta) :
+    metaDispatch env "EntryTemplatesGroup" acc = some (do pure { acc with entryTemplatesGroup := (← optUuid) }) := by
+  simp [metaDispatch]
+theorem metaDispatch_EntryTemplatesGroupChanged (env : Env) (acc : Meta) :
+    metaDispatch env "EntryTemplatesGroupChanged" acc = some (do pure { acc with entryTemplatesGroupChanged := (← optTime) }) := by
+  simp [metaDispatch]
+theorem metaDispatch_LastSelectedGroup (env : Env) (acc : Meta) :
+    metaDispatch env "LastSelectedGroup" acc = some (do pure { acc with lastSelectedGroup := (← optUuid) }) := by
+  simp [metaDispatch]
+theorem metaDispatch_LastTopVisibleGroup (env : Env) (acc : Meta) :
+    metaDispatch env "LastTopVisibleGroup" acc = some (do pure { acc with lastTopVisibleGroup := (← optUuid) }) := by
+  simp [metaDispatch]
+theorem metaDispatch_HistoryMaxItems (env : Env) (acc : Meta) :
+    metaDispatch env "HistoryMaxItems" acc = some (do pure { acc with historyMaxItems := (← optUsize) }) := by
+  simp [metaDispatch]
+theorem metaDispatch_HistoryMaxSize (env : Env) (acc : Meta) :
+    metaDispatch env "HistoryMaxSize" acc = some (do pure { acc with historyMaxSize := (← optUsize) }) := by
+  simp [metaDispatch]
+theorem metaDispatch_SettingsChanged (env : Env) (acc : Meta) :
+    metaDispatch env "SettingsChanged" acc = some (do pure { acc with settingsChanged := (← optTime) }) := by
+  simp [metaDispatch]
+theorem metaDispatch_Binaries (env : Env) (acc : Meta) :
+    metaDispatch env "Binaries" acc = some (do pure { acc with binaries := (← parseBinaries env) }) := by
+  simp [metaDispatch]
+theorem metaDispatch_CustomData (env : Env) (acc : Meta) :
+    metaDispatch env "CustomData" acc = some (do pure { acc with customData := (← parseCustomData env) }) := by
+  simp [metaDispatch]
+structure MetaOk (gz : Bytes → Bytes) (m : Meta) : Prop where
+  generator : OptNonBlank m.generator
+  databaseName : OptNonBlank m.databaseName
+  databaseNameChanged : OptAll TimeOk m.databaseNameChanged
+  databaseDescription : OptNonBlank m.databaseDescription
+  databaseDescriptionChanged : OptAll TimeOk m.databaseDescriptionChanged
+  defaultUsername : OptNonBlank m.defaultUsername
+  defaultUsernameChanged : OptAll TimeOk m.defaultUsernameChanged
+  maintenanceHistoryDays : OptAll UsizeOk m.maintenanceHistoryDays
+  color : m.color = none
+  masterKeyChanged : OptAll TimeOk m.masterKeyChanged
+  masterKeyChangeRec : OptAll IsizeOk m.masterKeyChangeRec
+  masterKeyChangeForce : OptAll IsizeOk m.masterKeyChangeForce
+  customIcons : ∀ p ∈ m.customIcons, IconOk p
+  recyclebinUuid : OptAll UuidOk m.recyclebinUuid
+  recyclebinChanged : OptAll TimeOk m.recyclebinChanged
+  entryTemplatesGroup : OptAll UuidOk m.entryTemplatesGroup
+  entryTemplatesGroupChanged : OptAll TimeOk m.entryTemplatesGroupChanged
+  lastSelectedGroup : OptAll UuidOk m.lastSelectedGroup
+  lastTopVisibleGroup : OptAll UuidOk m.lastTopVisibleGroup
+  historyMaxItems : OptAll UsizeOk m.historyMaxItems
+  historyMaxSize : OptAll UsizeOk m.historyMaxSize
+  settingsChanged : OptAll TimeOk m.settingsChanged
+  binaries : ∀ b ∈ m.binaries, BinaryOk gz b
+  customData : CdOk m.customData
+  customDataNodup : KeysNodup m.customData
+
+def evMeta (ks : Nat → Nat → Bytes) (gz : Bytes → Bytes) (off : Nat) (m : Meta) (lcd : List (String × CustomDataItem)) : List Ev :=
+  [.start "Meta" []] ++ (evOpt "Generator" id m.generator ++
+    (evOpt "DatabaseName" id m.databaseName ++
+    (evOpt "DatabaseNameChanged" formatTimestamp m.databaseNameChanged ++
+    (evOpt "DatabaseDescription" id m.databaseDescription ++
+    (evOpt "DatabaseDescriptionChanged" formatTimestamp m.databaseDescriptionChanged ++
+    (evOpt "DefaultUserName" id m.defaultUsername ++
+    (evOpt "DefaultUserNameChanged" formatTimestamp m.defaultUsernameChanged ++
+    (evOpt "MaintenanceHistoryDays" (fun (n : Nat) => toString n) m.maintenanceHistoryDays ++
+    (evOpt "Color" colorText (none : Option Color) ++
+    (evOpt "MasterKeyChanged" formatTimestamp m.masterKeyChanged ++
+    (evOpt "MasterKeyChangeRec" intText m.masterKeyChangeRec ++
+    (evOpt "MasterKeyChangeForce" intText m.masterKeyChangeForce ++
+    (optList evMemProt m.memoryProtection ++
+    (evCustomIcons m.customIcons ++
+    (evOpt "RecycleBinEnabled" boolText m.recyclebinEnabled ++
+    (evOpt "RecycleBinUUID" b64Text m.recyclebinUuid ++
+    (evOpt "RecycleBinChanged" formatTimestamp m.recyclebinChanged ++
+    (evOpt "EntryTemplatesGroup" b64Text m.entryTemplatesGroup ++
+    (evOpt "EntryTemplatesGroupChanged" formatTimestamp m.entryTemplatesGroupChanged ++
+    (evOpt "LastSelectedGroup" b64Text m.lastSelectedGroup ++
+    (evOpt "LastTopVisibleGroup" b64Text m.lastTopVisibleGroup ++
+    (evOpt "HistoryMaxItems" (fun (n : Nat) => toString n) m.historyMaxItems ++
+    (evOpt "HistoryMaxSize" (fun (n : Nat) => toString n) m.historyMaxSize ++
+    (evOpt "SettingsChanged" formatTimestamp m.settingsChanged ++
+    (evBinaries gz m.binaries ++
+    ((evCustomData ks off lcd).1 ++ ([.stop "Meta"] ++ [])))))))))))))))))))))))))))
+
+theorem meta_core (denv : DEnv) (u : Bytes → Option String) (penv : Env) (hks : ∀ o n, (penv.ks o n).length = n)
+    (henv : denv.ks = penv.ks) (hgz : ∀ x, penv.gunzip (denv.gzip x) = some x) (m : Meta) (hok : MetaOk denv.gzip m)
+    (stk : List String) (off : Nat) (ords : Ords) :
+    ∃ evs off', Dumps (dumpMeta denv u m) stk off ords true evs stk off' ords.tail ∧
+      Reads (parseMeta penv) evs off { m with customData := insertAll [] (ordered ords m.customData) } off' ∧
+      (∃ attrs tl, evs = .start "Meta" attrs :: tl) := by
+  refine ⟨evMeta denv.ks denv.gzip off m (ordered ords m.customData), (evCustomData denv.ks off (ordered ords m.customData)).2, ?dumps, ?reads, ⟨[], _, rfl⟩⟩
+  case dumps =>
+    rw [dumpMeta_eq]
+    unfold evMeta
+    refine Dumps.bind (Dumps.emit_start "Meta" [] stk off ords (by decide) rfl) ?_
+    refine Dumps.bind (Dumps.optTag "Generator" id false m.generator _ _ _ (by decide) (fun v hv => (hok.generator v hv).1)) ?_
+    refine Dumps.bind (Dumps.optTag "DatabaseName" id false m.databaseName _ _ _ (by decide) (fun v hv => (hok.databaseName v hv).1)) ?_
+    refine Dumps.bind (Dumps.optTag "DatabaseNameChanged" formatTimestamp true m.databaseNameChanged _ _ _ (by decide) (fun v _ => xmlText_b64 _)) ?_
+    refine Dumps.bind (Dumps.optTag "DatabaseDescription" id false m.databaseDescription _ _ _ (by decide) (fun v hv => (hok.databaseDescription v hv).1)) ?_
+    refine Dumps.bind (Dumps.optTag "DatabaseDescriptionChanged" formatTimestamp true m.databaseDescriptionChanged _ _ _ (by decide) (fun v _ => xmlText_b64 _)) ?_
+    refine Dumps.bind (Dumps.optTag "DefaultUserName" id false m.defaultUsername _ _ _ (by decide) (fun v hv => (hok.defaultUsername v hv).1)) ?_
+    refine Dumps.bind (Dumps.optTag "DefaultUserNameChanged" formatTimestamp true m.defaultUsernameChanged _ _ _ (by decide) (fun v _ => xmlText_b64 _)) ?_
+    refine Dumps.bind (Dumps.optTag "MaintenanceHistoryDays" (fun (n : Nat) => toString n) true m.maintenanceHistoryDays _ _ _ (by decide) (fun v _ => xmlText_nat v)) ?_
+    rw [hok.color]
+    refine Dumps.bind (Dumps.optTag "Color" colorText true none _ _ _ (by decide) (fun v hv => by cases hv)) ?_
+    refine Dumps.bind (Dumps.optTag "MasterKeyChanged" formatTimestamp true m.masterKeyChanged _ _ _ (by decide) (fun v _ => xmlText_b64 _)) ?_
+    refine Dumps.bind (Dumps.optTag "MasterKeyChangeRec" intText true m.masterKeyChangeRec _ _ _ (by decide) (fun v _ => xmlText_int v)) ?_
+    refine Dumps.bind (Dumps.optTag "MasterKeyChangeForce" intText true m.masterKeyChangeForce _ _ _ (by decide) (fun v _ => xmlText_int v)) ?_
+    refine Dumps.bind (dumps_optMemProt m.memoryProtection _ _ _) ?_
+    refine Dumps.bind (dumps_customIcons m.customIcons _ _ _ hok.customIcons) ?_
+    refine Dumps.bind (Dumps.optTag "RecycleBinEnabled" boolText true m.recyclebinEnabled _ _ _ (by decide) (fun v _ => xmlText_bool v)) ?_
+    refine Dumps.bind (Dumps.optTag "RecycleBinUUID" b64Text true m.recyclebinUuid _ _ _ (by decide) (fun v _ => xmlText_b64 v)) ?_
+    refine Dumps.bind (Dumps.optTag "RecycleBinChanged" formatTimestamp true m.recyclebinChanged _ _ _ (by decide) (fun v _ => xmlText_b64 _)) ?_
+    refine Dumps.bind (Dumps.optTag "EntryTemplatesGroup" b64Text true m.entryTemplatesGroup _ _ _ (by decide) (fun v _ => xmlText_b64 v)) ?_
+    refine Dumps.bind (Dumps.optTag "EntryTemplatesGroupChanged" formatTimestamp true m.entryTemplatesGroupChanged _ _ _ (by decide) (fun v _ => xmlText_b64 _)) ?_
+    refine Dumps.bind (Dumps.optTag "LastSelectedGroup" b64Text true m.lastSelectedGroup _ _ _ (by decide) (fun v _ => xmlText_b64 v)) ?_
+    refine Dumps.bind (Dumps.optTag "LastTopVisibleGroup" b64Text true m.lastTopVisibleGroup _ _ _ (by decide) (fun v _ => xmlText_b64 v)) ?_
+    refine Dumps.bind (Dumps.optTag "HistoryMaxItems" (fun (n : Nat) => toString n) true m.historyMaxItems _ _ _ (by decide) (fun v _ => xmlText_nat v)) ?_
+    refine Dumps.bind (Dumps.optTag "HistoryMaxSize" (fun (n : Nat) => toString n) true m.historyMaxSize _ _ _ (by decide) (fun v _ => xmlText_nat v)) ?_
+    refine Dumps.bind (Dumps.optTag "SettingsChanged" formatTimestamp true m.settingsChanged _ _ _ (by decide) (fun v _ => xmlText_b64 _)) ?_
+    refine Dumps.bind (dumps_binariesEl denv m.binaries _ _ _ hok.binaries) ?_
+    refine Dumps.bind (dumps_customData denv u m.customData _ _ _ (fun p hp => hok.customData p (mem_ordered _ _ p hp))) ?_
+    exact Dumps.bind (Dumps.emit_stop "Meta" stk _ _) (Dumps.pure _ _ _ _)
+  case reads =>
+    intro rest
+    rw [parseMeta_eq]
+    have key : LoopOk "Meta" (metaDispatch penv) skipUnknown ({} : Meta)
+        ⟨(evMeta denv.ks denv.gzip off m (ordered ords m.customData)).tail ++ rest, off⟩
+        (({ m with customData := insertAll [] (ordered ords m.customData) } : Meta),
+          ⟨rest, (evCustomData denv.ks off (ordered ords m.customData)).2⟩) := by
+      have hcol := hok.color
+      obtain ⟨generator, databaseName, databaseNameChanged, databaseDescription, databaseDescriptionChanged, defaultUsername, defaultUsernameChanged, maintenanceHistoryDays, color, masterKeyChanged, masterKeyChangeRec, masterKeyChangeForce, memoryProtection, customIcons, recyclebinEnabled, recyclebinUuid, recyclebinChanged, entryTemplatesGroup, entryTemplatesGroupChanged, lastSelectedGroup, lastTopVisibleGroup, historyMaxItems, historyMaxSize, settingsChanged, binaries, customData⟩ := m
+      simp only at hcol hok ⊢
+      subst hcol
+      simp only [evMeta, List.cons_append, List.nil_append, List.tail_cons, List.append_assoc, henv, optList_none]
+      refine LoopOk.optChild generator _ (fun (acc : Meta) x => { acc with generator := x }) "Generator" _ _ _ rfl
+        (fun a => ⟨[], _, rfl⟩) (metaDispatch_Generator penv _) ?_ ?_
+      · exact fun a hx => ((reads_optText "Generator" a _ (hok.generator a hx))).andThen _
+      refine LoopOk.optChild databaseName _ (fun (acc : Meta) x => { acc with databaseName := x }) "DatabaseName" _ _ _ rfl
+        (fun a => ⟨[], _, rfl⟩) (metaDispatch_DatabaseName penv _) ?_ ?_
+      · exact fun a hx => ((reads_optText "DatabaseName" a _ (hok.databaseName a hx))).andThen _
+      refine LoopOk.optChild databaseNameChanged _ (fun (acc : Meta) x => { acc with databaseNameChanged := x }) "DatabaseNameChanged" _ _ _ rfl
+        (fun a => ⟨[], _, rfl⟩) (metaDispatch_DatabaseNameChanged penv _) ?_ ?_
+      · exact fun a hx => ((reads_optTime "DatabaseNameChanged" a _ (hok.databaseNameChanged a hx))).andThen _
+      refine LoopOk.optChild databaseDescription _ (fun (acc : Meta) x => { acc with databaseDescription := x }) "DatabaseDescription" _ _ _ rfl
+        (fun a => ⟨[], _, rfl⟩) (metaDispatch_DatabaseDescription penv _) ?_ ?_
+      · exact fun a hx => ((reads_optText "DatabaseDescription" a _ (hok.databaseDescription a hx))).andThen _
+      refine LoopOk.optChild databaseDescriptionChanged _ (fun (acc : Meta) x => { acc with databaseDescriptionChanged := x }) "DatabaseDescriptionChanged" _ _ _ rfl
+        (fun a => ⟨[], _, rfl⟩) (metaDispatch_DatabaseDescriptionChanged penv _) ?_ ?_
+      · exact fun a hx => ((reads_optTime "DatabaseDescriptionChanged" a _ (hok.databaseDescriptionChanged a hx))).andThen _
+      refine LoopOk.optChild defaultUsername _ (fun (acc : Meta) x => { acc with defaultUsername := x }) "DefaultUserName" _ _ _ rfl
+        (fun a => ⟨[], _, rfl⟩) (metaDispatch_DefaultUserName penv _) ?_ ?_
+      · exact fun a hx => ((reads_optText "DefaultUserName" a _ (hok.defaultUsername a hx))).andThen _
+      refine LoopOk.optChild defaultUsernameChanged _ (fun (acc : Meta) x => { acc with defaultUsernameChanged := x }) "DefaultUserNameChanged" _ _ _ rfl
+        (fun a => ⟨[], _, rfl⟩) (metaDispatch_DefaultUserNameChanged penv _) ?_ ?_
+      · exact fun a hx => ((reads_optTime "DefaultUserNameChanged" a _ (hok.defaultUsernameChanged a hx))).andThen _
+      refine LoopOk.optChild maintenanceHistoryDays _ (fun (acc : Meta) x => { acc with maintenanceHistoryDays := x }) "MaintenanceHistoryDays" _ _ _ rfl
+        (fun a => ⟨[], _, rfl⟩) (metaDispatch_MaintenanceHistoryDays penv _) ?_ ?_
+      · exact fun a hx => ((reads_optUsize "MaintenanceHistoryDays" a _ (hok.maintenanceHistoryDays a hx))).andThen _
+      refine LoopOk.optChild masterKeyChanged _ (fun (acc : Meta) x => { acc with masterKeyChanged := x }) "MasterKeyChanged" _ _ _ rfl
+        (fun a => ⟨[], _, rfl⟩) (metaDispatch_MasterKeyChanged penv _) ?_ ?_
+      · exact fun a hx => ((reads_optTime "MasterKeyChanged" a _ (hok.masterKeyChanged a hx))).andThen _
+      refine LoopOk.optChild masterKeyChangeRec _ (fun (acc : Meta) x => { acc with masterKeyChangeRec := x }) "MasterKeyChangeRec" _ _ _ rfl
+        (fun a => ⟨[], _, rfl⟩) (metaDispatch_MasterKeyChangeRec penv _) ?_ ?_
+      · exact fun a hx => ((reads_optIsize "MasterKeyChangeRec" a _ (hok.masterKeyChangeRec a hx))).andThen _
+      refine LoopOk.optChild masterKeyChangeForce _ (fun (acc : Meta) x => { acc with masterKeyChangeForce := x }) "MasterKeyChangeForce" _ _ _ rfl
+        (fun a => ⟨[], _, rfl⟩) (metaDispatch_MasterKeyChangeForce penv _) ?_ ?_
+      · exact fun a hx => ((reads_optIsize "MasterKeyChangeForce" a _ (hok.masterKeyChangeForce a hx))).andThen _
+      refine LoopOk.optChild memoryProtection _ (fun (acc : Meta) x => { acc with memoryProtection := x }) "MemoryProtection" _ _ _ rfl
+        (fun a => ⟨[], _, rfl⟩) (metaDispatch_MemoryProtection penv _) ?_ ?_
+      · exact fun a _ => (reads_memProt a _).andThen _
+      refine LoopOk.childL _ "CustomIcons" _ _ _ _ _ ⟨[], _, rfl⟩ (metaDispatch_CustomIcons penv _)
+        ((reads_customIcons customIcons _ hok.customIcons).andThen _) ?_
+      refine LoopOk.optChild recyclebinEnabled _ (fun (acc : Meta) x => { acc with recyclebinEnabled := x }) "RecycleBinEnabled" _ _ _ rfl
+        (fun a => ⟨[], _, rfl⟩) (metaDispatch_RecycleBinEnabled penv _) ?_ ?_
+      · exact fun a _ => (reads_optBool "RecycleBinEnabled" a _).andThen _
+      refine LoopOk.optChild recyclebinUuid _ (fun (acc : Meta) x => { acc with recyclebinUuid := x }) "RecycleBinUUID" _ _ _ rfl
+        (fun a => ⟨[], _, rfl⟩) (metaDispatch_RecycleBinUUID penv _) ?_ ?_
+      · exact fun a hx => ((reads_optUuid "RecycleBinUUID" a _ (hok.recyclebinUuid a hx))).andThen _
+      refine LoopOk.optChild recyclebinChanged _ (fun (acc : Meta) x => { acc with recyclebinChanged := x }) "RecycleBinChanged" _ _ _ rfl
+        (fun a => ⟨[], _, rfl⟩) (metaDispatch_RecycleBinChanged penv _) ?_ ?_
+      · exact fun a hx => ((reads_optTime "RecycleBinChanged" a _ (hok.recyclebinChanged a hx))).andThen _
+      refine LoopOk.optChild entryTemplatesGroup _ (fun (acc : Meta) x => { acc with entryTemplatesGroup := x }) "EntryTemplatesGroup" _ _ _ rfl
+        (fun a => ⟨[], _, rfl⟩) (metaDispatch_EntryTemplatesGroup penv _) ?_ ?_
+      · exact fun a hx => ((reads_optUuid "EntryTemplatesGroup" a _ (hok.entryTemplatesGroup a hx))).andThen _
+      refine LoopOk.optChild entryTemplatesGroupChanged _ (fun (acc : Meta) x => { acc with entryTemplatesGroupChanged := x }) "EntryTemplatesGroupChanged" _ _ _ rfl
+        (fun a => ⟨[], _, rfl⟩) (metaDispatch_EntryTemplatesGroupChanged penv _) ?_ ?_
+      · exact fun a hx => ((reads_optTime "EntryTemplatesGroupChanged" a _ (hok.entryTemplatesGroupChanged a hx))).andThen _
+      refine LoopOk.optChild lastSelectedGroup _ (fun (acc : Meta) x => { acc with lastSelectedGroup := x }) "LastSelectedGroup" _ _ _ rfl
+        (fun a => ⟨[], _, rfl⟩) (metaDispatch_LastSelectedGroup penv _) ?_ ?_
+      · exact fun a hx => ((reads_optUuid "LastSelectedGroup" a _ (hok.lastSelectedGroup a hx))).andThen _
+      refine LoopOk.optChild lastTopVisibleGroup _ (fun (acc : Meta) x => { acc with lastTopVisibleGroup := x }) "LastTopVisibleGroup" _ _ _ rfl
+        (fun a => ⟨[], _, rfl⟩) (metaDispatch_LastTopVisibleGroup penv _) ?_ ?_
+      · exact fun a hx => ((reads_optUuid "LastTopVisibleGroup" a _ (hok.lastTopVisibleGroup a hx))).andThen _
+      refine LoopOk.optChild historyMaxItems _ (fun (acc : Meta) x => { acc with historyMaxItems := x }) "HistoryMaxItems" _ _ _ rfl
+        (fun a => ⟨[], _, rfl⟩) (metaDispatch_HistoryMaxItems penv _) ?_ ?_
+      · exact fun a hx => ((reads_optUsize "HistoryMaxItems" a _ (hok.historyMaxItems a hx))).andThen _
+      refine LoopOk.optChild historyMaxSize _ (fun (acc : Meta) x => { acc with historyMaxSize := x }) "HistoryMaxSize" _ _ _ rfl
+        (fun a => ⟨[], _, rfl⟩) (metaDispatch_HistoryMaxSize penv _) ?_ ?_
+      · exact fun a hx => ((reads_optUsize "HistoryMaxSize" a _ (hok.historyMaxSize a hx))).andThen _
+      refine LoopOk.optChild settingsChanged _ (fun (acc : Meta) x => { acc with settingsChanged := x }) "SettingsChanged" _ _ _ rfl
+        (fun a => ⟨[], _, rfl⟩) (metaDispatch_SettingsChanged penv _) ?_ ?_
+      · exact fun a hx => ((reads_optTime "SettingsChanged" a _ (hok.settingsChanged a hx))).andThen _
+      refine LoopOk.childL _ "Binaries" _ _ _ _ _ ⟨[], _, rfl⟩ (metaDispatch_Binaries penv _)
+        ((reads_binaries penv denv.gzip hgz binaries _).andThen _) ?_
+      refine LoopOk.childL _ "CustomData" _ _ _ _ _ ⟨[], _, rfl⟩ (metaDispatch_CustomData penv _)
+        ((reads_customData penv (ordered ords customData) _ (fun p hp => hok.customData p (mem_ordered _ _ p hp)) hks).andThen _) ?_
+      exact LoopOk.stop _ _ _ _ _ _
+    have hx : evMeta denv.ks denv.gzip off m (ordered ords m.customData)
+        = .start "Meta" [] :: (evMeta denv.ks denv.gzip off m (ordered ords m.customData)).tail := rfl
+    rw [hx]
+    simp only [List.cons_append, bind, StateT.bind, expectStart, next, Outcome.bind, ite_true, pure, StateT.pure, fuelOf, get,
+      getThe, MonadStateOf.get, StateT.get]
+    exact key _ (by simp)
+
+
+/-! ### deleted objects, `<Root>`, the document -/
+
+def evDeleted (p : Bytes × Int) : List Ev :=
+  el "DeletedObject" (el "UUID" [.chars (b64Text p.1)] ++ el "DeletionTime" [.chars (formatTimestamp p.2)])
+
+def DeletedOk (p : Bytes × Int) : Prop := p.1.length = 16 ∧ TimeOk p.2
+
+def deletedDispatch : String → (Bytes × Int) → Option (P (Bytes × Int)) := fun name acc =>
+    if name = "UUID" then some (do pure ((← tagReq .uuid).toUuid, acc.2))
+    else if name = "DeletionTime" then some (do pure (acc.1, (← tagReq .time).toTime))
+    else none
+
+theorem parseDeletedObject_eq : parseDeletedObject = (do
+    let _ ← expectStart "DeletedObject"
+    structLoop "DeletedObject" deletedDispatch rejectUnknown (← fuelOf) (List.replicate 16 0, 0)) := rfl
+
+theorem reads_deleted (p : Bytes × Int) (off : Nat) (h : DeletedOk p) : Reads parseDeletedObject (evDeleted p) off p off := by
+  intro rest
+  obtain ⟨uu, t⟩ := p
+  rw [parseDeletedObject_eq]
+  simp only [evDeleted, el, List.cons_append, bind, StateT.bind, expectStart, next, Outcome.bind, ite_true,
+    pure, StateT.pure, fuelOf, get, getThe, MonadStateOf.get, StateT.get]
+  simp only [List.append_assoc, List.cons_append, List.nil_append]
+  refine (?_ : LoopOk _ _ _ _ _ _) _ (by simp)
+  refine LoopOk.child (acc' := (uu, 0)) "UUID" [] [.chars (b64Text uu), .stop "UUID"] _ off off _ (by rfl)
+    (by simp [deletedDispatch]; rfl) ((reads_tagReq .uuid "UUID" _ _ off (parses_uuid uu h.1)).andThen _) ?_
+  refine LoopOk.child (acc' := (uu, t)) "DeletionTime" [] [.chars (formatTimestamp t), .stop "DeletionTime"] _ off off _ (by rfl)
+    (by simp [deletedDispatch]; rfl) ((reads_tagReq .time "DeletionTime" _ _ off (parses_time t h.2.1 h.2.2)).andThen _) ?_
+  exact LoopOk.stop _ _ _ _ _ _
+
+def deletedObjectsDispatch : String → List (Bytes × Int) → Option (P (List (Bytes × Int))) := fun name acc =>
+    if name = "DeletedObject" then some (do pure (acc ++ [← parseDeletedObject])) else none
+
+theorem parseDeletedObjects_eq : parseDeletedObjects = (do
+    let _ ← expectStart "DeletedObjects"
+    structLoop "DeletedObjects" deletedObjectsDispatch rejectUnknown (← fuelOf) []) := rfl
+
+theorem deletedLoop_items (l : List (Bytes × Int)) : ∀ (acc : List (Bytes × Int)) (rest : List Ev) (off : Nat) (r),
+    (∀ p ∈ l, DeletedOk p) →
+    LoopOk "DeletedObjects" deletedObjectsDispatch rejectUnknown (acc ++ l) ⟨rest, off⟩ r →
+    LoopOk "DeletedObjects" deletedObjectsDispatch rejectUnknown acc ⟨l.flatMap evDeleted ++ rest, off⟩ r := by
+  induction l with
+  | nil => intro acc rest off r _ h; simpa using h
+  | cons a l ih =>
+    intro acc rest off r h hn
+    rw [List.flatMap_cons, List.append_assoc]
+    refine LoopOk.childL (acc ++ [a]) "DeletedObject" _ _ off off _ ⟨[], _, rfl⟩
+      (by simp [deletedObjectsDispatch]; rfl) ((reads_deleted a off (h a List.mem_cons_self)).andThen _) ?_
+    refine ih _ rest off r (fun x hx => h x (List.mem_cons_of_mem _ hx)) ?_
+    simpa [List.append_assoc] using hn
+
+def evDeletedObjects (l : List (Bytes × Int)) : List Ev := el "DeletedObjects" (l.flatMap evDeleted)
+
+theorem reads_deletedObjects (l : List (Bytes × Int)) (off : Nat) (h : ∀ p ∈ l, DeletedOk p) :
+    Reads parseDeletedObjects (evDeletedObjects l) off l off := by
+  intro rest
+  rw [parseDeletedObjects_eq]
+  simp only [evDeletedObjects, el, List.cons_append, bind, StateT.bind, expectStart, next, Outcome.bind, ite_true,
+    pure, StateT.pure, fuelOf, get, getThe, MonadStateOf.get, StateT.get]
+  simp only [List.append_assoc, List.cons_append, List.nil_append]
+  refine (?_ : LoopOk _ _ _ _ _ _) _ (by simp)
+  refine deletedLoop_items l [] _ off _ h ?_
+  exact LoopOk.stop _ _ _ _ _ _
+
+def dumpDeletedObjects (l : List (Bytes × Int)) : D Unit := do
+  emit (WEv.start "DeletedObjects" [])
+  forIn l PUnit.unit fun x (_ : PUnit) =>
+      match x with
+      | (uuid, t) => do
+        emit (WEv.start "DeletedObject" [])
+        tagRaw "UUID" (b64Text uuid)
+        tagRaw "DeletionTime" (formatTimestamp t)
+        emit WEv.stop
+        pure (ForInStep.yield PUnit.unit)
+  emit WEv.stop
+
+theorem dumps_deletedItems (stk : List String) (off : Nat) (ords : Ords) (l : List (Bytes × Int))
+    (h : ∀ p ∈ l, DeletedOk p) :
+    Dumps (forIn l PUnit.unit fun x (_ : PUnit) =>
+      match x with
+      | (uuid, t) => do
+        emit (WEv.start "DeletedObject" [])
+        tagRaw "UUID" (b64Text uuid)
+        tagRaw "DeletionTime" (formatTimestamp t)
+        emit WEv.stop
+        pure (ForInStep.yield PUnit.unit)) stk off ords PUnit.unit (l.flatMap evDeleted) stk off ords := by
+  induction l with
+  | nil => exact Dumps.pure _ _ _ _
+  | cons p l ih =>
+    obtain ⟨uu, t⟩ := p
+    have hp := h (uu, t) List.mem_cons_self
+    have hne : uu ≠ [] := by intro e; have := hp.1; rw [e] at this; simp at this
+    rw [List.forIn_cons]
+    have e : List.flatMap evDeleted ((uu, t) :: l)
+        = ([.start "DeletedObject" []] ++ (el "UUID" [.chars (b64Text uu)] ++ (el "DeletionTime" [.chars (formatTimestamp t)] ++
+            ([.stop "DeletedObject"] ++ [])))) ++ l.flatMap evDeleted := by
+      simp [List.flatMap_cons, evDeleted, el]
+    rw [e]
+    refine Dumps.bind (s2 := stk) (o2 := off) (q2 := ords) (a := ForInStep.yield PUnit.unit) ?_ (ih (fun x hx => h x (List.mem_cons_of_mem _ hx)))
+    refine Dumps.bind (Dumps.emit_start "DeletedObject" [] stk off ords (by decide) rfl) ?_
+    refine Dumps.bind (by have := Dumps.tagRaw "UUID" (b64Text uu) ("DeletedObject" :: stk) off ords (by decide) (xmlText_b64 _); rwa [txt_b64 _ hne] at this) ?_
+    refine Dumps.bind (by have := Dumps.tagRaw "DeletionTime" (formatTimestamp t) ("DeletedObject" :: stk) off ords (by decide) (xmlText_b64 _); rwa [txt_time] at this) ?_
+    exact Dumps.bind (Dumps.emit_stop "DeletedObject" stk _ ords) (Dumps.pure _ _ _ _)
+
+theorem dumps_deletedObjects (l : List (Bytes × Int)) (stk : List String) (off : Nat) (ords : Ords)
+    (h : ∀ p ∈ l, DeletedOk p) :
+    Dumps (dumpDeletedObjects l) stk off ords () (evDeletedObjects l) stk off ords := by
+  have e : evDeletedObjects l = [.start "DeletedObjects" []] ++ (l.flatMap evDeleted ++ [.stop "DeletedObjects"]) := by
+    simp [evDeletedObjects, el]
+  rw [e]
+  refine Dumps.bind (Dumps.emit_start "DeletedObjects" [] stk off ords (by decide) rfl) ?_
+  refine Dumps.bind (dumps_deletedItems _ off ords l h) ?_
+  exact Dumps.emit_stop "DeletedObjects" stk off ords
+
+
+def rootDispatch (env : Env) : String → (Node × List (Bytes × Int)) → Option (P (Node × List (Bytes × Int))) := fun name acc =>
+    if name = "Group" then some (do
+      let n := (← get).evs.length
+      pure (← parseGroup env (n + 1), acc.2))
+    else if name = "DeletedObjects" then some (do pure (acc.1, ← parseDeletedObjects))
+    else none
+
+theorem parseRoot_eq (env : Env) : parseRoot env = (do
+    let _ ← expectStart "Root"
+    structLoop "Root" (rootDispatch env) rejectUnknown (← fuelOf) (defaultGroup, [])) := rfl
+
+def fileDispatch (env : Env) : String → Content → Option (P Content) := fun name acc =>
+    if name = "Meta" then some (do pure { acc with metaData := (← parseMeta env) })
+    else if name = "Root" then some (do
+      let (g, d) ← parseRoot env
+      pure { acc with root := g, deletedObjects := d })
+    else none
+
+theorem parseKeePassFile_eq (env : Env) : parseKeePassFile env = (do
+    let _ ← expectStart "KeePassFile"
+    structLoop "KeePassFile" (fileDispatch env) rejectUnknown (← fuelOf) {}) := rfl
+
+/-- the writer action of the whole document -/
+def docAct (env : DEnv) (u : Bytes → Option String) (c : Content) : D Bool := do
+  emit (WEv.start "KeePassFile" [])
+  let ok1 ← dumpMeta env u c.metaData
+  emit (WEv.start "Root" [])
+  let ok2 ← dumpGroup env u (nodeDepth c.root + 1) c.root
+  dumpDeletedObjects c.deletedObjects
+  emit WEv.stop
+  emit WEv.stop
+  pure (ok1 && ok2)
+
+theorem dumpContent_eq (env : DEnv) (u : Bytes → Option String) (orders : Ords) (c : Content) :
+    dumpContent env u orders c =
+      (((docAct env u c) ⟨0, orders, []⟩).2.out, ((docAct env u c) ⟨0, orders, []⟩).1, ((docAct env u c) ⟨0, orders, []⟩).2.off) := rfl
+
+/-- the databases the document-level theorem speaks about -/
+structure ContentOk (gz : Bytes → Bytes) (c : Content) : Prop where
+  metaOk : MetaOk gz c.metaData
+  rootOk : NodeOk c.root
+  rootIsGroup : ∀ e, c.root ≠ .entry e
+  deletedOk : ∀ p ∈ c.deletedObjects, DeletedOk p
+
+/-- equal up to the order in which maps list their items -/
+structure ContentEq (c c' : Content) : Prop where
+  metaEq : ∃ cd', c'.metaData = { c.metaData with customData := cd' } ∧ ∀ k, cd'.lookup k = c.metaData.customData.lookup k
+  rootEq : NodeEq c.root c'.root
+  deletedEq : c'.deletedObjects = c.deletedObjects
+
+theorem doc_rt (denv : DEnv) (u : Bytes → Option String) (penv : Env) (hks : ∀ o n, (penv.ks o n).length = n)
+    (henv : denv.ks = penv.ks) (hgz : ∀ x, penv.gunzip (denv.gzip x) = some x) (c : Content) (hc : ContentOk denv.gzip c)
+    (ords : Ords) :
+    ∃ evs off' ords' c', Dumps (docAct denv u c) [] 0 ords true evs [] off' ords' ∧
+      Reads (parseKeePassFile penv) evs 0 c' off' ∧ ContentEq c c' := by
+  obtain ⟨m, root, deleted⟩ := c
+  obtain ⟨hm, hr, hrg, hd⟩ := hc
+  simp only at hm hr hrg hd
+  cases root with
+  | entry e => exact absurd rfl (hrg e)
+  | group uuid name notes iconId ciu cs t cd isExp das ea es ltve =>
+    obtain ⟨evsM, offM, hMd, hMr, hMh⟩ := meta_core denv u penv hks henv hgz m hm ["KeePassFile"] 0 ords
+    obtain ⟨evsG, offG, ordsG, g', hGd, hGr, hGe, hGh, hGl⟩ :=
+      group_rt denv u penv hks henv uuid name notes iconId ciu cs t cd isExp das ea es ltve hr
+        (nodeDepth (.group uuid name notes iconId ciu cs t cd isExp das ea es ltve) + 1) (Nat.le_succ _)
+        ["Root", "KeePassFile"] offM ords.tail
+    refine ⟨[.start "KeePassFile" []] ++ (evsM ++ ([.start "Root" []] ++ (evsG ++ (evDeletedObjects deleted ++
+      ([.stop "Root"] ++ ([.stop "KeePassFile"] ++ [])))))), offG, ordsG,
+      ⟨{ m with customData := insertAll [] (ordered ords m.customData) }, g', deleted⟩, ?dumps, ?reads, ?eq⟩
+    case eq =>
+      exact ⟨⟨_, rfl, lookup_insertAll_ordered ords m.customData hm.customDataNodup⟩, hGe, rfl⟩
+    case dumps =>
+      unfold docAct
+      refine Dumps.bind (Dumps.emit_start "KeePassFile" [] [] 0 ords (by decide) rfl) ?_
+      refine Dumps.bind hMd ?_
+      refine Dumps.bind (Dumps.emit_start "Root" [] _ _ _ (by decide) rfl) ?_
+      refine Dumps.bind hGd ?_
+      refine Dumps.bind (dumps_deletedObjects deleted _ _ _ hd) ?_
+      refine Dumps.bind (Dumps.emit_stop "Root" _ _ _) ?_
+      exact Dumps.bind (Dumps.emit_stop "KeePassFile" _ _ _) (Dumps.pure _ _ _ _)
+    case reads =>
+      have hroot : Reads (parseRoot penv) ([.start "Root" []] ++ (evsG ++ (evDeletedObjects deleted ++ [.stop "Root"]))) offM
+          (g', deleted) offG := by
+        intro rest
+        rw [parseRoot_eq]
+        simp only [List.cons_append, List.nil_append, List.append_assoc, bind, StateT.bind, expectStart, next,
+          Outcome.bind, ite_true, pure, StateT.pure, fuelOf, get, getThe, MonadStateOf.get, StateT.get]
+        refine (?_ : LoopOk _ _ _ _ _ _) _ (by simp)
+        refine LoopOk.childL (g', []) "Group" evsG _ offM offG _ hGh (by simp [rootDispatch]; rfl) ?_ ?_
+        · intro rest'
+          have := hGr ((evsG ++ rest').length + 1) (by simp only [List.length_append]; omega) rest'
+          simp only [bind, StateT.bind, get, getThe, MonadStateOf.get, StateT.get, pure, StateT.pure, Outcome.bind, this]
+        refine LoopOk.childL (g', deleted) "DeletedObjects" _ _ offG offG _ ⟨[], _, rfl⟩ (by simp [rootDispatch])
+          ((reads_deletedObjects deleted offG hd).andThen _) ?_
+        exact LoopOk.stop _ _ _ _ _ _
+      intro rest
+      rw [parseKeePassFile_eq]
+      simp only [List.cons_append, List.nil_append, List.append_assoc, bind, StateT.bind, expectStart, next,
+        Outcome.bind, ite_true, pure, StateT.pure, fuelOf, get, getThe, MonadStateOf.get, StateT.get]
+      refine (?_ : LoopOk _ _ _ _ _ _) _ (by simp)
+      refine LoopOk.childL (acc' := ({ metaData := { m with customData := insertAll [] (ordered ords m.customData) } } : Content))
+        "Meta" evsM _ 0 offM _ hMh (by simp [fileDispatch]; rfl) (hMr.andThen _) ?_
+      have hroot' : Reads (do
+            let (g, d) ← parseRoot penv
+            pure ({ ({ metaData := { m with customData := insertAll [] (ordered ords m.customData) } } : Content) with root := g, deletedObjects := d }))
+          ([.start "Root" []] ++ (evsG ++ (evDeletedObjects deleted ++ [.stop "Root"]))) offM
+          ⟨{ m with customData := insertAll [] (ordered ords m.customData) }, g', deleted⟩ offG := by
+        intro rest'
+        rw [P_bind_ok _ _ _ _ _ (hroot rest')]
+        rfl
+      have e : Ev.start "Root" [] :: (evsG ++ (evDeletedObjects deleted ++ Ev.stop "Root" :: Ev.stop "KeePassFile" :: rest))
+          = ([.start "Root" []] ++ (evsG ++ (evDeletedObjects deleted ++ [.stop "Root"]))) ++ (Ev.stop "KeePassFile" :: rest) := by
+        simp
+      rw [e]
+      refine LoopOk.childL _ "Root" _ _ offM offG _ ⟨[], _, rfl⟩ (by simp [fileDispatch]) hroot' ?_
+      exact LoopOk.stop _ _ _ _ _ _
 
 
 end Kp.Xml
